@@ -1,16 +1,34 @@
-"""C18 - PE artifacts and the deduced version are reported correctly (structural part)."""
+"""C18 - PE artifacts and the deduced version are reported correctly (structural part).
+
+The rules are phrased on *roles*, not on the spelling of the analysed code:
+
+* expressions are brought into a canonical form first (`_Canon`): single-definition temporaries substituted, values
+  unpacked/indexed from a tuple traced to the element, struct parses on the stream named DOS/FILE/OPT/SECTION/EXPORT,
+  the result of find_mz_offset named MZ, the index of a `range` loop named `_i_`; positions and bounds are compared as
+  polynomials over these roles, conditions as sets of `p >= 0` facts taken from the dominating branch edges;
+* case distinctions (which machines a scanner accepts / maps to which architecture, which optional header is parsed) are
+  decided by evaluating the dominating conditions for every Machine value, including the conditions that dominated the
+  definitions a value was traced through;
+* loop-free code (BeaconConfig.version, BeaconVersion.__init__, the lookups, find_magic_mz) is evaluated symbolically per
+  scenario (`_SymExec`), so nested ifs / guard clauses / conditional expressions / temporaries / walrus / comprehensions
+  over literal sequences / loops over literal tuples all yield the same values.
+
+An obligation is *undecided* only when the construct it talks about cannot be located (no DOS header parse, no candidate
+loop over a range, a value that is not computed from the match groups, a statement kind the evaluator does not model ...).
+"""
 
 from __future__ import annotations
 
 import ast
+import copy
 import datetime
 import re
 
 from csverif import tables
-from csverif.absint import SymPoly, sympoly
-from csverif.astutil import assignments_to, body_walk, compare_parts, const_eval, dotted, fn_calls, is_const, kwarg, module_env, NotConst, params, src, statements
+from csverif.absint import SymPoly
+from csverif.astutil import assignments_to, bind_args, compare_parts, const_eval, dotted, fn_calls, is_none, module_env, NotConst, params, src, statements, strip_cast
 from csverif.cursor import CursorWalk
-from csverif.q import FuncView, dominating_conditions, guarded_by, origin, raise_class
+from csverif.q import FuncView, dominating_conditions
 
 VERSION_RE = re.compile(r"^Cobalt Strike (\d+)\.(\d+)(?:\.(\d+))? \((\w{3}) (\d{2}), (\d{4})\)$")
 MONTHS = {m: i + 1 for i, m in enumerate(["Jan", "Feb", "Mar", "Apr", "May", "Jun", "Jul", "Aug", "Sep", "Oct", "Nov", "Dec"])}
@@ -28,13 +46,17 @@ def run(ctx):
     rep.explanation = (
         "Static analysis of pe.py / version.py / BeaconConfig.version: PE structure layouts computed from PE_DEF (cstruct "
         "little-endian) compared with the PE/COFF reference for every field the code reads; a symbolic file-position "
-        "typestate (polynomials over the local names) checks that in each pe.find_* function the DOS header, signature, file "
-        "header, optional header, section table and export directory are parsed at the position the format prescribes; "
-        "sibling agreement of find_mz_offset / find_architecture; the two version tables checked completely (shape of every "
-        "value with an independent regex and date parser, monotone in key order, contiguous releases); version precedence."
+        "typestate whose positions are canonicalised to polynomials over roles (DOS/FILE/OPT/SECTION parses, the image base "
+        "MZ, the candidate index) checks that in each pe.find_* function the DOS header, signature, file header, optional "
+        "header, section table, export directory, PE magic, prepend and append bytes are read at the position the format "
+        "prescribes and that the export section is the one whose virtual range contains the rva; the two scanners are "
+        "compared on a canonical summary (range, start, positions, e_lfanew constraint, accepted machines, EOF handling) and "
+        "their machine handling is decided by case distinction over the Machine values; the two version tables are checked "
+        "completely (shape of every value with an independent regex and date parser, monotone in key order, contiguous "
+        "releases); version precedence, the constructor's tuple/date and find_magic_mz are evaluated symbolically per scenario."
     )
     rep.not_decided = ["unusual images (SizeOfOptionalHeader != struct size, overlapping sections)", "timestamp -> release truth of each table row"]
-    rep.trusted_base = ["CPython ast", "C-definition parser", "PE/COFF reference layout in csverif/tables.py", "SymPoly normal form"]
+    rep.trusted_base = ["CPython ast", "C-definition parser", "PE/COFF reference layout in csverif/tables.py", "SymPoly normal form", "scenario evaluator of rules/c18.py (_SymExec)"]
     rep.exhaustive = True
     r1(ctx)
     r2(ctx)
@@ -66,6 +88,55 @@ def r1(ctx):
     ctx.ob("R1", "TABLE", "pe.py::PE_DEF::IMAGE_DOS_HEADER", "e_lfanew signed", e is not None and e.signed, "e_lfanew is a signed LONG (the `> 0` constraint matters)")
 
 
+# ============================================================================ canonical expressions
+# The rules below never look at the spelling of the analysed code.  Expressions are first brought into a canonical form:
+# single-definition temporaries are substituted, values unpacked from a tuple are traced back to the tuple element,
+# struct parses on the stream / the result of find_mz_offset / `range` loop variables are replaced by *role* names.
+_ROLE = {"IMAGE_DOS_HEADER": "DOS", "IMAGE_FILE_HEADER": "FILE", "IMAGE_OPTIONAL_HEADER": "OPT", "IMAGE_OPTIONAL_HEADER64": "OPT",
+         "IMAGE_SECTION_HEADER": "SECTION", "IMAGE_EXPORT_DIRECTORY": "EXPORT", "uint32": "U32"}
+_STRUCT_ROLES = frozenset(_ROLE.values())
+_IDX = "_i_"  # the 0-based index of a `for .. in range(..)` loop
+_SEC = "SEC"  # the element variable of a loop / comprehension over the section table
+_INLINE = (ast.Name, ast.Attribute, ast.Subscript, ast.BinOp, ast.UnaryOp, ast.Constant, ast.Tuple)
+_NOCONST = object()
+
+
+def _u(e):
+    return ast.unparse(e)
+
+
+def _nm(id_):
+    return ast.Name(id=id_, ctx=ast.Load())
+
+
+class _Subst(ast.NodeTransformer):
+    def __init__(self, mapping):
+        self.mapping = mapping
+
+    def visit_Name(self, node):
+        if isinstance(node.ctx, ast.Load) and node.id in self.mapping:
+            return copy.deepcopy(self.mapping[node.id])
+        return node
+
+
+def _subst(e, mapping):
+    return _Subst(mapping).visit(copy.deepcopy(e))
+
+
+def _poly(e):
+    """Polynomial normal form of a canonical expression; every non-arithmetic sub-expression is an atom (its text)."""
+    if isinstance(e, ast.Constant) and type(e.value) is int:
+        return SymPoly.const(e.value)
+    if isinstance(e, ast.UnaryOp) and isinstance(e.op, ast.USub):
+        return -_poly(e.operand)
+    if isinstance(e, ast.UnaryOp) and isinstance(e.op, ast.UAdd):
+        return _poly(e.operand)
+    if isinstance(e, ast.BinOp) and isinstance(e.op, (ast.Add, ast.Sub, ast.Mult)):
+        a, b = _poly(e.left), _poly(e.right)
+        return a + b if isinstance(e.op, ast.Add) else a - b if isinstance(e.op, ast.Sub) else a * b
+    return SymPoly.atom(_u(e))
+
+
 def _sub(poly, mapping):
     """Substitute atoms by polys."""
     if poly is None:
@@ -79,189 +150,879 @@ def _sub(poly, mapping):
     return out
 
 
-def r2(ctx):
-    funcs = {
-        "pe.find_mz_offset": ("scan", False),
-        "pe.find_architecture": ("scan", False),
-        "pe.find_compile_stamps": ("found", True),
-        "pe.find_magic_pe": ("found", True),
-        "pe.find_stage_prepend_append": ("found", False),
-    }
-    total = 0
-    for fq, (base_kind, has_sig) in funcs.items():
-        f = ctx.repo.func(fq)
-        fh = params(f.node)[0]
-        sites = CursorWalk(ctx, f, fh).run()
-        # the image base: for the scanners `start_offset + <range loop variable>`, for the others the value returned by
-        # find_mz_offset - discovered by role, not by name
-        if base_kind == "scan":
-            lv = [dotted(s2.target) for s2 in statements(f.node) if isinstance(s2, ast.For) and isinstance(s2.iter, ast.Call) and dotted(s2.iter.func) == "range"]
-            B = SymPoly.atom(params(f.node)[1]) + SymPoly.atom(lv[0]) if lv else None
-        else:
-            mz = [dotted(s2.targets[0]) for s2 in statements(f.node) if isinstance(s2, ast.Assign) and isinstance(s2.value, ast.Call) and ctx.rs.resolve_call(f, s2.value).fq == "pe.find_mz_offset"]
-            B = SymPoly.atom(mz[0]) if mz else None
-        if B is None:
-            ctx.ob("R2", "CURSOR", f, "image base", False, "cannot identify the image base (scan variable / find_mz_offset result)")
-            continue
-        L = None
-        dos = [s for s in sites if s.kind == "parse" and s.what.endswith("IMAGE_DOS_HEADER")]
-        if len(dos) != 1:
-            ctx.ob("R2", "CURSOR", f, "IMAGE_DOS_HEADER", False, f"{len(dos)} DOS header parses")
-            continue
-        total += 1
-        d = dos[0]
-        ctx.ob("R2", "CURSOR", f, "IMAGE_DOS_HEADER @ base", d.pos == B, f"DOS header parsed at {d.pos}; required {B}", d.node)
-        L = SymPoly.atom(f"{d.var}.e_lfanew")
-        for s in sites:
-            if s is d:
+def _single_atom(poly):
+    """The atom name if poly is exactly one atom with coefficient 1."""
+    if poly is not None and len(poly.terms) == 1:
+        (mon, coef), = poly.terms.items()
+        if len(mon) == 1 and coef == 1:
+            return mon[0]
+    return None
+
+
+class _Canon:
+    def __init__(self, ctx, f):
+        self.ctx, self.f, self.fn = ctx, f, f.node
+        ps = params(self.fn)
+        self.pars = set(ps)
+        self.stream = ps[0] if ps else None
+        self.prov = []  # definition statements traversed by canon() calls since the caller last cleared it
+        self._roles = {}
+
+    # -- roles
+    def call_role(self, call):
+        cal = self.ctx.rs.resolve_call(self.f, call)
+        if cal.kind == "struct" and cal.struct and call.args and dotted(call.args[0]) == self.stream:
+            n = cal.struct[2].lstrip("_")
+            return _ROLE.get(n, n)
+        if cal.kind == "func" and cal.fq == "pe.find_mz_offset":
+            return "MZ"
+        return None
+
+    def name_role(self, name):
+        if name not in self._roles:
+            role = None
+            defs = assignments_to(self.fn, name)
+            if defs and all(v is not None and isinstance(strip_cast(v), ast.Call) for _s, v in defs):
+                rs = {self.call_role(strip_cast(v)) for _s, v in defs}
+                if len(rs) == 1:
+                    role = rs.pop()
+            self._roles[name] = role
+        return self._roles[name]
+
+    def range_loop(self, name):
+        """(lo | None, hi, stmt) when `name` is bound only as the target of `for name in range([lo,] hi)`."""
+        defs = assignments_to(self.fn, name)
+        if len(defs) == 1 and isinstance(defs[0][0], ast.For):
+            st = defs[0][0]
+            it = st.iter
+            if isinstance(st.target, ast.Name) and isinstance(it, ast.Call) and dotted(it.func) == "range" and not it.keywords and len(it.args) in (1, 2) \
+                    and not any(isinstance(a, ast.Starred) for a in it.args):
+                return (None, it.args[0], st) if len(it.args) == 1 else (it.args[0], it.args[1], st)
+        return None
+
+    # -- canonical form
+    def canon(self, e, full=False, extra=None, _depth=0):
+        """Copy of e in canonical form.  `full` substitutes every single-definition local (otherwise only those defined by
+        plain value expressions, so that the result stays a readable polynomial over roles)."""
+        cn = self
+        bound = []
+
+        class T(ast.NodeTransformer):
+            def visit_Name(self, node):
+                if not isinstance(node.ctx, ast.Load) or any(node.id in b for b in bound):
+                    return node
+                r = cn._name(node.id, full, extra, _depth)
+                return r if r is not None else node
+
+            def visit_Call(self, node):
+                role = cn.call_role(node)
+                if role:
+                    return _nm(role)
+                return self.generic_visit(node)
+
+            def visit_Lambda(self, node):
+                return node
+
+            def visit_Subscript(self, node):
+                # X[k] where the only not-None value flowing into the local X is a tuple display: its k-th element
+                if isinstance(node.value, ast.Name) and isinstance(node.slice, ast.Constant) and type(node.slice.value) is int \
+                        and node.value.id not in cn.pars and not any(node.value.id in b for b in bound) and _depth <= 8:
+                    cands = [(s2, v) for s2, v in cn._origins(node.value, None) if not is_none(v)]
+                    if len(cands) == 1 and cands[0][0] is not None:
+                        elts = cn.elements(cands[0][1])
+                        k = node.slice.value
+                        if elts is not None and -len(elts) <= k < len(elts):
+                            cn.prov.append(cands[0][0])
+                            return cn.canon(elts[k], full, extra, _depth + 1)
+                return self.generic_visit(node)
+
+            def _comp(self, node):
+                bound.append({n.id for g in node.generators for n in ast.walk(g.target) if isinstance(n, ast.Name)})
+                try:
+                    return self.generic_visit(node)
+                finally:
+                    bound.pop()
+
+            visit_ListComp = visit_SetComp = visit_GeneratorExp = visit_DictComp = _comp
+
+        return T().visit(copy.deepcopy(e))
+
+    def _name(self, id_, full, extra, depth):
+        if extra and id_ in extra:
+            return copy.deepcopy(extra[id_])
+        if id_ in self.pars or depth > 8:
+            return None
+        role = self.name_role(id_)
+        if role:
+            return _nm(role)
+        rl = self.range_loop(id_)
+        if rl:
+            lo = rl[0]
+            return _nm(_IDX) if lo is None else ast.BinOp(left=self.canon(lo, full, extra, depth + 1), op=ast.Add(), right=_nm(_IDX))
+        defs = assignments_to(self.fn, id_)
+        if len(defs) != 1:
+            return None
+        st, v = defs[0]
+        if v is not None and isinstance(st, (ast.Assign, ast.AnnAssign)):
+            if any(isinstance(x, ast.Name) and x.id == id_ for x in ast.walk(v)):
+                return None
+            v = strip_cast(v)
+            if full or isinstance(v, _INLINE) or (isinstance(v, ast.Call) and self.call_role(v)):
+                self.prov.append(st)
+                return self.canon(v, full, extra, depth + 1)
+            return None
+        if v is None and isinstance(st, ast.Assign) and len(st.targets) == 1 and isinstance(st.targets[0], (ast.Tuple, ast.List)):
+            el = self._unpack(st, id_)
+            if el is not None:
+                self.prov.extend([st, el[0]])
+                return self.canon(el[1], full, extra, depth + 1)
+        return None
+
+    def _origins(self, e, st, depth=0):
+        """(defining statement, expression) of every plain definition that may flow into e."""
+        e = strip_cast(e)
+        if depth <= 6 and isinstance(e, ast.Name) and e.id not in self.pars:
+            defs = assignments_to(self.fn, e.id)
+            if defs and all(v is not None and isinstance(s, (ast.Assign, ast.AnnAssign)) for s, v in defs):
+                out = []
+                for s, v in defs:
+                    out.extend(self._origins(v, s, depth + 1))
+                return out
+        return [(st, e)]
+
+    def elements(self, v):
+        """Element expressions of a tuple/list display or of a comprehension over a literal sequence."""
+        if isinstance(v, (ast.Tuple, ast.List)):
+            return None if any(isinstance(x, ast.Starred) for x in v.elts) else list(v.elts)
+        if isinstance(v, (ast.GeneratorExp, ast.ListComp)) and len(v.generators) == 1:
+            g = v.generators[0]
+            if isinstance(g.target, ast.Name) and not g.ifs and not g.is_async:
+                it = self.canon(g.iter, full=True)
+                if isinstance(it, (ast.Tuple, ast.List)) and all(isinstance(x, ast.Constant) for x in it.elts):
+                    return [_subst(v.elt, {g.target.id: x}) for x in it.elts]
+        return None
+
+    def _unpack(self, st, name):
+        """`a, b = X`: the element of the (only not-None) tuple that flows into X which `name` receives."""
+        t = st.targets[0]
+        if any(not isinstance(x, ast.Name) for x in t.elts):
+            return None
+        idx = [x.id for x in t.elts].index(name)
+        cands = [(s, v) for s, v in self._origins(st.value, st) if not is_none(v)]
+        if len(cands) != 1:
+            return None
+        s, v = cands[0]
+        elts = self.elements(v)
+        if elts is None or len(elts) != len(t.elts):
+            return None
+        return s, elts[idx]
+
+    def poly(self, e, full=False, extra=None):
+        return _poly(self.canon(e, full, extra))
+
+    def canon_poly(self, p):
+        """Canonical form of a position polynomial of the cursor walk (atoms are texts of expressions of the function)."""
+        if p is None:
+            return None
+        mapping = {}
+        for a in p.atoms():
+            if a.startswith("sizeof(") and a.endswith(")"):
+                var = a[7:-1]
+                role = self.name_role(var) if var.isidentifier() else None
+                mapping[a] = SymPoly.atom(f"sizeof({role or var})")
                 continue
+            try:
+                e = ast.parse(a, mode="eval").body
+            except SyntaxError:
+                continue
+            mapping[a] = _poly(self.canon(e))
+        return _sub(p, mapping)
+
+
+class _View:
+    """Parse/read sites of one pe.find_* function with canonical positions."""
+
+    def __init__(self, ctx, f):
+        self.ctx, self.f = ctx, f
+        self.cn = cn = _Canon(ctx, f)
+        self.sites = CursorWalk(ctx, f, cn.stream).run()
+        for s in self.sites:
+            s.cpos = cn.canon_poly(s.pos)
+            s.role = None
             if s.kind == "parse":
-                total += 1
-                nm = s.what.replace("_IMAGE", "IMAGE").lstrip("_")
-                if nm == "uint32":
-                    want = B + L
-                    label = "PE signature"
-                elif nm == "IMAGE_FILE_HEADER":
-                    want = B + L + SymPoly.const(4)
-                    label = "IMAGE_FILE_HEADER"
-                    fvar = s.var
-                elif nm.startswith("IMAGE_OPTIONAL_HEADER"):
-                    want = B + L + SymPoly.const(24)
-                    label = nm
-                    ovar = s.var
-                elif nm == "IMAGE_SECTION_HEADER":
-                    want = B + L + SymPoly.const(24) + SymPoly.atom(f"sizeof({ovar})")
-                    label = "section table"
-                    cnt_ok = s.count == f"{fvar}.NumberOfSections"
-                    ctx.ob("R2", "CURSOR", f, "section count", cnt_ok, f"parses {s.count} section headers; required {fvar}.NumberOfSections", s.node)
-                elif nm == "IMAGE_EXPORT_DIRECTORY":
-                    # base + (export_rva - sec.VirtualAddress) + sec.PointerToRawData
-                    p = s.pos
-                    ex = _expand_local(f, p)
-                    want = None
-                    label = "export directory"
-                    ok, detail = _export_offset_ok(ctx, f, ex, B)
-                    ctx.ob("R2", "CURSOR", f, "IMAGE_EXPORT_DIRECTORY position", ok, detail, s.node)
-                    continue
+                n = s.what.lstrip("_")
+                s.role = _ROLE.get(n, n)
+        self.parses = [s for s in self.sites if s.kind == "parse"]
+        self.has_mz = any(cn.call_role(c) == "MZ" for c in fn_calls(f.node))
+        self._scan = None
+
+    def first(self, role):
+        return next((s for s in self.parses if s.role == role), None)
+
+    def scan(self):
+        """The candidate loop of a scanner: dict(B image base, A start atom, M search range, status)."""
+        if self._scan is None:
+            self._scan = self._scan_base()
+        return self._scan
+
+    def _scan_base(self):
+        cn = self.cn
+        out = dict(B=None, A=None, M=None, status="ok", why="")
+        d = self.first("DOS")
+        if d is None:
+            out.update(status="undecided", why="no IMAGE_DOS_HEADER parse on the stream")
+            return out
+        B = d.cpos
+        if B is None:
+            out.update(status="undecided", why="the position of the IMAGE_DOS_HEADER parse is not tracked")
+            return out
+        out["B"] = B
+        loops = [st for st in statements(cn.fn) if isinstance(st, ast.For) and isinstance(st.target, ast.Name) and cn.range_loop(st.target.id)]
+        if len(loops) != 1:
+            out.update(status="undecided", why=f"{len(loops)} candidate loops over a range")
+            return out
+        lo, hi, _st = cn.range_loop(loops[0].target.id)
+        out["M"] = cn.poly(hi) - (cn.poly(lo) if lo is not None else SymPoly())
+        rest = B - SymPoly.atom(_IDX)
+        A = _single_atom(rest)
+        if _IDX not in B.atoms() or A is None or A == _IDX:
+            out.update(status="violated", why=f"DOS header parsed at {B}; required <start> + i for the candidate index i of the range loop")
+            return out
+        out["A"] = A
+        return out
+
+    def start_expr(self):
+        """Canonical text of the value the search starts at, in terms of the parameters on entry."""
+        sc = self.scan()
+        A = sc.get("A")
+        if A is None or not A.isidentifier():
+            return A
+        cn = self.cn
+        fn = cn.fn
+        defs = assignments_to(fn, A)
+        e = None
+        if A in cn.pars:
+            if not defs:
+                e = _nm(A)
+            elif len(defs) == 1 and defs[0][1] is not None and isinstance(defs[0][0], (ast.Assign, ast.AnnAssign)):
+                st, v = defs[0]
+                par = FuncView.of(fn).parent.get(id(st))
+                if par is fn:
+                    e = v
+                elif isinstance(par, ast.If) and not par.orelse and len(par.body) == 1 and FuncView.of(fn).parent.get(id(par)) is fn:
+                    e = ast.IfExp(test=par.test, body=v, orelse=_nm(A))
+        elif len(defs) == 1 and defs[0][1] is not None:
+            e = defs[0][1]
+        if e is None:
+            return None
+        return _u(_norm_choice(cn.canon(e, full=True)))
+
+
+def _norm_choice(e):
+    """`a if x is not None else b` / `a if not t else b` -> the positive test with the branches swapped."""
+    if isinstance(e, ast.IfExp):
+        t, b, o = e.test, _norm_choice(e.body), _norm_choice(e.orelse)
+        while True:
+            if isinstance(t, ast.UnaryOp) and isinstance(t.op, ast.Not):
+                t, b, o = t.operand, o, b
+            elif isinstance(t, ast.Compare) and len(t.ops) == 1 and isinstance(t.ops[0], ast.IsNot):
+                t, b, o = ast.Compare(left=t.left, ops=[ast.Is()], comparators=t.comparators), o, b
+            elif isinstance(t, ast.Compare) and len(t.ops) == 1 and isinstance(t.ops[0], ast.NotEq):
+                t, b, o = ast.Compare(left=t.left, ops=[ast.Eq()], comparators=t.comparators), o, b
+            else:
+                break
+        return ast.IfExp(test=t, body=b, orelse=o)
+    return e
+
+
+def _view(ctx, f):
+    cache = ctx.__dict__.setdefault("_c18_views", {})
+    if f.fq not in cache or cache[f.fq].f.node is not f.node:
+        cache[f.fq] = _View(ctx, f)
+    return cache[f.fq]
+
+
+# ---------------------------------------------------------------------------- facts from conditions
+def _flatten(test, pol=True):
+    """(leaf, polarity) facts that hold when `test` evaluates to `pol` (negations pushed inwards, and/or split)."""
+    if isinstance(test, ast.UnaryOp) and isinstance(test.op, ast.Not):
+        return _flatten(test.operand, not pol)
+    if isinstance(test, ast.BoolOp) and ((isinstance(test.op, ast.And) and pol) or (isinstance(test.op, ast.Or) and not pol)):
+        return [x for v in test.values for x in _flatten(v, pol)]
+    return [(test, pol)]
+
+
+def _rel(a, op, b, pol):
+    """The polynomial p with `p >= 0` equivalent to `a op b` (integers) having truth value pol."""
+    t = type(op)
+    if not pol:
+        t = {ast.Lt: ast.GtE, ast.LtE: ast.Gt, ast.Gt: ast.LtE, ast.GtE: ast.Lt}.get(t)
+    one = SymPoly.const(1)
+    if t is ast.Lt:
+        return b - a - one
+    if t is ast.LtE:
+        return b - a
+    if t is ast.Gt:
+        return a - b - one
+    if t is ast.GtE:
+        return a - b
+    return None
+
+
+def _ineqs(cn, facts, extra=None):
+    """Set of polynomials known to be >= 0 from (test node, polarity) facts (chained comparisons included)."""
+    out = set()
+    for test, pol0 in facts:
+        for leaf, pol in _flatten(test, pol0):
+            if not isinstance(leaf, ast.Compare):
+                continue
+            parts = compare_parts(leaf, mirrored=False)
+            if not pol and len(parts) != 1:
+                continue
+            for l, op, r in parts:
+                p = _rel(cn.poly(l, extra=extra), op, cn.poly(r, extra=extra), pol)
+                if p is not None:
+                    out.add(p)
+    return out
+
+
+def _dom_facts(ctx, f, node):
+    seen, out = set(), []
+    for _t, pol, n in dominating_conditions(ctx, f, node):
+        if (id(n), pol) not in seen:
+            seen.add((id(n), pol))
+            out.append((n, pol))
+    return out
+
+
+def _tv3(e, leaf):
+    """Three-valued truth of e; `leaf` decides the atoms."""
+    if isinstance(e, ast.Constant):
+        return bool(e.value)
+    if isinstance(e, ast.UnaryOp) and isinstance(e.op, ast.Not):
+        v = _tv3(e.operand, leaf)
+        return None if v is None else (not v)
+    if isinstance(e, ast.BoolOp):
+        vals = [_tv3(v, leaf) for v in e.values]
+        if isinstance(e.op, ast.And):
+            return False if any(v is False for v in vals) else True if all(v is True for v in vals) else None
+        return True if any(v is True for v in vals) else False if all(v is False for v in vals) else None
+    return leaf(e)
+
+
+def _const_of(ctx, f, e):
+    """Value of a constant expression: a #define of a cstruct of the module, a literal, a module-level constant."""
+    d = dotted(e)
+    if d and "." in d:
+        head, last = d.split(".")[0], d.split(".")[-1]
+        for cd in ctx.cdefs(f.module.name).values():
+            if cd.var == head and last in cd.defines and d.count(".") == 1:
+                return cd.defines[last]
+    try:
+        return const_eval(e, module_env(f.module))
+    except (NotConst, TypeError, KeyError, ValueError):
+        return _NOCONST
+
+
+# ---------------------------------------------------------------------------- the Machine field as a case distinction
+def _machine_values(ctx):
+    cd = ctx.cdefs("pe").get("pestruct")
+    vals = {v for k, v in (cd.defines.items() if cd else ()) if k.startswith("IMAGE_FILE_MACHINE_")}
+    vals |= {tables.PE_DEFINES["IMAGE_FILE_MACHINE_AMD64"], tables.PE_DEFINES["IMAGE_FILE_MACHINE_I386"], 0}
+    return sorted(vals)
+
+
+def _mach_leaf(ctx, f, v):
+    """Decides canonical tests on FILE.Machine for the case `FILE.Machine == v`."""
+
+    def leaf(e):
+        if isinstance(e, ast.Compare) and len(e.ops) == 1:
+            l, op, r = e.left, e.ops[0], e.comparators[0]
+            if _u(r) == "FILE.Machine" and isinstance(op, (ast.Eq, ast.NotEq)):
+                l, r = r, l
+            if _u(l) != "FILE.Machine":
+                return None
+            if isinstance(op, (ast.Eq, ast.NotEq)):
+                c = _const_of(ctx, f, r)
+                if c is _NOCONST:
+                    return None
+                return (v == c) if isinstance(op, ast.Eq) else (v != c)
+            if isinstance(op, (ast.In, ast.NotIn)):
+                if isinstance(r, (ast.Tuple, ast.List, ast.Set)):
+                    cs = [_const_of(ctx, f, x) for x in r.elts]
                 else:
+                    cs = _const_of(ctx, f, r)
+                    cs = list(cs) if isinstance(cs, (tuple, list, set, frozenset, dict)) else [_NOCONST]
+                if any(c is _NOCONST for c in cs):
+                    return None
+                return (v in cs) if isinstance(op, ast.In) else (v not in cs)
+        if isinstance(e, (ast.Subscript, ast.Call, ast.IfExp)):
+            pv = _pick(ctx, f, e, leaf, v)
+            if isinstance(pv, ast.Constant):
+                return bool(pv.value)
+        if _u(e) == "FILE.Machine":
+            return bool(v)
+        return None
+
+    return leaf
+
+
+def _pick(ctx, f, e, leaf, v):
+    """Value of a canonical expression in the case decided by leaf: conditional expressions and literal-dict lookups on
+    FILE.Machine are resolved."""
+    if isinstance(e, ast.IfExp):
+        t = _tv3(e.test, leaf)
+        if t is not None:
+            return _pick(ctx, f, e.body if t else e.orelse, leaf, v)
+        return e
+    key = dflt = table = None
+    if isinstance(e, ast.Subscript) and _u(e.slice) == "FILE.Machine":
+        table, key = e.value, e.slice
+    elif isinstance(e, ast.Call) and isinstance(e.func, ast.Attribute) and e.func.attr == "get" and e.args and _u(e.args[0]) == "FILE.Machine" and not e.keywords:
+        table, key, dflt = e.func.value, e.args[0], (e.args[1] if len(e.args) > 1 else ast.Constant(value=None))
+    if key is not None:
+        tv = None
+        if isinstance(table, ast.Dict) and all(k is not None for k in table.keys):
+            ks = [_const_of(ctx, f, k) for k in table.keys]
+            if not any(k is _NOCONST for k in ks):
+                tv = dict(zip(ks, table.values))
+        if tv is not None:
+            if v in tv:
+                return tv[v]
+            if dflt is not None:
+                return dflt
+    return e
+
+
+def _machine_cases(ctx, f, cn, nodes_conds):
+    """Machine values consistent with every (canonical test, polarity) of nodes_conds."""
+    out = []
+    for v in _machine_values(ctx):
+        leaf = _mach_leaf(ctx, f, v)
+        ok = True
+        for c, pol in nodes_conds:
+            t = _tv3(c, leaf)
+            if t is not None and t != pol:
+                ok = False
+                break
+        if ok:
+            out.append(v)
+    return out
+
+
+def _alts(e):
+    """The alternatives of a (canonical) conditional expression with the tests that select them."""
+    if isinstance(e, ast.IfExp):
+        return [(x, [(e.test, True)] + c) for x, c in _alts(e.body)] + [(x, [(e.test, False)] + c) for x, c in _alts(e.orelse)]
+    return [(e, [])]
+
+
+def _conds_closure(ctx, f, cn, stmts):
+    """(canonical test, polarity) of the conditions that dominate the statements and, transitively, the definitions the
+    values in those conditions were traced through (a value that flows only from a definition satisfies what held there)."""
+    todo, seen, out = list(stmts), set(), []
+    while todo:
+        st = todo.pop()
+        if id(st) in seen:
+            continue
+        seen.add(id(st))
+        for n, pol in _dom_facts(ctx, f, st):
+            cn.prov = []
+            out.append((cn.canon(n, full=True), pol))
+            todo.extend(cn.prov)
+    return out
+
+
+def _accepts(ctx, f, cn):
+    """For a scanner: {machine value: set of values returned for a candidate with that machine} over the returns that
+    report a hit; the conditions are those dominating the return *and* every definition its value was traced through."""
+    cfg = ctx.cfg(f)
+    rets = [r for r in cfg.return_stmts() if r.value is not None and not is_none(r.value)]
+    res = {}
+    allowed = None
+    if f.fq != "pe.find_mz_offset" and any(cn.call_role(c) == "MZ" for c in fn_calls(f.node)):
+        # the image is located through find_mz_offset: only the machines it accepts can be seen in the file header
+        g = ctx.repo.func("pe.find_mz_offset")
+        allowed = set(_accepts(ctx, g, _view(ctx, g).cn)[0])
+    for r in rets:
+        cn.prov = []
+        val = cn.canon(r.value, full=True)
+        base = _conds_closure(ctx, f, cn, list(cn.prov) + [r])
+        for alt, extra_c in _alts(val):
+            if is_none(alt):
+                continue
+            conds = base + extra_c
+            for v in _machine_cases(ctx, f, cn, conds):
+                if allowed is not None and v not in allowed:
                     continue
-                ctx.ob("R2", "CURSOR", f, f"{label} position", s.pos == want, f"{label} parsed at {s.pos}; required {want}", s.node)
-            elif s.kind == "read" and has_sig and s.what == "4" and fq == "pe.find_magic_pe":
+                pv = _pick(ctx, f, alt, _mach_leaf(ctx, f, v), v)
+                if is_none(pv):
+                    continue  # nothing is reported for this machine
+                res.setdefault(v, set()).add(pv.value if isinstance(pv, ast.Constant) else _u(pv))
+    return res, rets
+
+
+# ---------------------------------------------------------------------------- value flow into returned expressions
+def _flow_names(fn, exprs):
+    """Local names whose values may flow into the given expressions (through plain/augmented assignments)."""
+    names, todo = set(), [n.id for e in exprs for n in ast.walk(e) if isinstance(n, ast.Name)]
+    while todo:
+        x = todo.pop()
+        if x in names:
+            continue
+        names.add(x)
+        for st, v in assignments_to(fn, x):
+            src_e = v if v is not None else getattr(st, "value", None)
+            if isinstance(src_e, ast.AST):
+                todo.extend(n.id for n in ast.walk(src_e) if isinstance(n, ast.Name))
+    return names
+
+
+def _reads_into(view, exprs):
+    """Stream reads whose result flows into one of the expressions."""
+    names = _flow_names(view.cn.fn, exprs)
+    inside = {id(n) for e in exprs for n in ast.walk(e)}
+    return [s for s in view.sites if s.kind == "read" and ((s.var is not None and s.var in names) or id(s.node) in inside)]
+
+
+# ============================================================================ R2: positions
+_PE_FUNCS = {
+    "pe.find_mz_offset": "scan",
+    "pe.find_architecture": "scan",
+    "pe.find_compile_stamps": "found",
+    "pe.find_magic_pe": "found",
+    "pe.find_stage_prepend_append": "found",
+}
+
+
+def _untracked(ctx, rule, f, text, view, site, what):
+    """The position before `site` is unknown: when no seek precedes it at all the operation happens wherever the stream
+    was left (located and wrong); otherwise the position expression is beyond the cursor walk (undecided)."""
+    before = view.sites[: next(i for i, s in enumerate(view.sites) if s is site)]
+    if not any(s.kind == "seek" for s in before):
+        ctx.ob(rule, "CURSOR", f, text, False, f"no seek precedes the {what}: it happens wherever the stream position was left", site.node)
+    else:
+        ctx.undecided(rule, "CURSOR", f, text, f"the stream position before the {what} is not tracked", site.node)
+
+
+def _pos_ob(ctx, f, label, site, want):
+    if site.cpos is None:
+        _untracked(ctx, "R2", f, f"{label} position", _view(ctx, f), site, f"{label} parse")
+    else:
+        ctx.ob("R2", "CURSOR", f, f"{label} position", site.cpos == want, f"{label} parsed at {site.cpos}; required {want}", site.node)
+
+
+def r2(ctx):
+    total = 0
+    for fq, kind in _PE_FUNCS.items():
+        f = ctx.repo.func(fq)
+        v = _view(ctx, f)
+        cn = v.cn
+        dos = [s for s in v.parses if s.role == "DOS"]
+        if not dos:
+            ctx.undecided("R2", "CURSOR", f, "IMAGE_DOS_HEADER", "no IMAGE_DOS_HEADER parse on the stream is found in the function")
+            continue
+        # the image base: for the scanners <start> + <index of the range loop>, for the others the value returned by
+        # find_mz_offset - discovered by role, not by name
+        if kind == "scan" and v.has_mz and fq != "pe.find_mz_offset" and v.scan()["status"] == "undecided":
+            kind = "found"
+        if kind == "scan":
+            sc = v.scan()
+            B = sc["B"] if sc["status"] == "ok" else None
+            if sc["status"] == "undecided":
+                ctx.undecided("R2", "CURSOR", f, "image base", sc["why"], dos[0].node)
+            else:
+                ctx.ob("R2", "CURSOR", f, "IMAGE_DOS_HEADER @ base", sc["status"] == "ok", sc["why"] or f"DOS header parsed at {B} = <start> + candidate index", dos[0].node)
                 total += 1
-                ctx.ob("R2", "CURSOR", f, "PE magic position", s.pos == B + L, f"PE magic read at {s.pos}; required {B + L}", s.node)
+            if B is None:
+                continue
+        else:
+            if not v.has_mz:
+                ctx.undecided("R2", "CURSOR", f, "image base", "no call of find_mz_offset: the image base cannot be identified")
+                continue
+            B = SymPoly.atom("MZ")
+        L = SymPoly.atom("DOS.e_lfanew")
+        have_opt = any(s.role == "OPT" for s in v.parses)
+        for s in v.parses:
+            if s.role == "DOS":
+                if kind == "scan" and s is dos[0]:
+                    continue
+                total += 1
+                if s.cpos is None:
+                    ctx.undecided("R2", "CURSOR", f, "IMAGE_DOS_HEADER @ base", "the stream position before the DOS header parse is not tracked", s.node)
+                else:
+                    ctx.ob("R2", "CURSOR", f, "IMAGE_DOS_HEADER @ base", s.cpos == B, f"DOS header parsed at {s.cpos}; required {B}", s.node)
+            elif s.role == "U32":
+                total += 1
+                _pos_ob(ctx, f, "PE signature", s, B + L)
+            elif s.role == "FILE":
+                total += 1
+                _pos_ob(ctx, f, "IMAGE_FILE_HEADER", s, B + L + SymPoly.const(4))
+            elif s.role == "OPT":
+                total += 1
+                _pos_ob(ctx, f, s.what.lstrip("_"), s, B + L + SymPoly.const(24))
+            elif s.role == "SECTION":
+                total += 1
+                if not have_opt:
+                    ctx.undecided("R2", "CURSOR", f, "section table position", "no optional header parse is found before the section table", s.node)
+                else:
+                    _pos_ob(ctx, f, "section table", s, B + L + SymPoly.const(24) + SymPoly.atom("sizeof(OPT)"))
+                cnt = None
+                if s.count is not None:
+                    try:
+                        cnt = cn.poly(ast.parse(s.count, mode="eval").body)
+                    except SyntaxError:
+                        cnt = None
+                want = SymPoly.atom("FILE.NumberOfSections")
+                if s.count is None:
+                    ctx.undecided("R2", "CURSOR", f, "section count", "the section headers are not parsed by a comprehension over a range", s.node)
+                else:
+                    ctx.ob("R2", "CURSOR", f, "section count", cnt == want, f"parses {cnt} section headers; required {want}", s.node)
+            elif s.role == "EXPORT":
+                total += 1
+                _export_ob(ctx, f, v, s, B)
+        if fq == "pe.find_magic_pe":
+            # the reported magic: the read whose result is returned
+            rets = [r.value for r in ctx.cfg(f).return_stmts() if r.value is not None and not is_none(r.value)]
+            reads = _reads_into(v, rets)
+            if len(reads) != 1:
+                ctx.undecided("R2", "CURSOR", f, "PE magic position", f"{len(reads)} stream reads flow into the returned value")
+            else:
+                s = reads[0]
+                total += 1
+                ln = cn.poly(s.node.args[0]) if s.node.args else None
+                if s.cpos is None:
+                    _untracked(ctx, "R2", f, "PE magic position", v, s, "read of the PE magic")
+                else:
+                    ctx.ob("R2", "CURSOR", f, "PE magic position", s.cpos == B + L and ln == SymPoly.const(4), f"PE magic: {ln} bytes read at {s.cpos}; required 4 bytes at {B + L}", s.node)
+        if fq == "pe.find_mz_offset":
+            # what the scanner reports is the position of the DOS header it accepted
+            for r in ctx.cfg(f).return_stmts():
+                if r.value is None or is_none(r.value):
+                    continue
+                for alt, _c in _alts(cn.canon(r.value)):
+                    if is_none(alt):
+                        continue
+                    p = _poly(alt)
+                    ctx.ob("R2", "CURSOR", f, "reported offset = position of the accepted DOS header", p == B, f"returns {p}; the accepted header was parsed at {B}", r)
     ctx.rep.count("pe_parse_sites", total, floor=16)
 
 
-def _expand_local(f, poly):
-    """Expand atoms that are single-definition locals with a polynomial value."""
-    if poly is None:
+def _is_export_rva(ctx, f, text):
+    """OPT.DataDirectory[IMAGE_DIRECTORY_ENTRY_EXPORT].VirtualAddress"""
+    try:
+        e = ast.parse(text, mode="eval").body
+    except SyntaxError:
+        return False
+    if not (isinstance(e, ast.Attribute) and e.attr == "VirtualAddress" and isinstance(e.value, ast.Subscript)):
+        return False
+    sub = e.value
+    if _u(sub.value) != "OPT.DataDirectory":
+        return False
+    return _const_of(ctx, f, sub.slice) == tables.PE_DEFINES["IMAGE_DIRECTORY_ENTRY_EXPORT"]
+
+
+def _section_choice(ctx, f, cn, sec):
+    """How the local `sec` is chosen from the section table: (element variable, iterable, [(condition, polarity)]) for
+    `for x in T: if C(x): sec = x` and for `sec = next((x for x in T if C(x)), ..)`; None when it is chosen otherwise."""
+    fn = cn.fn
+    fv = FuncView.of(fn)
+    defs = [(st, v) for st, v in assignments_to(fn, sec) if not (v is not None and is_none(v))]
+    if not defs or any(v is None for _s, v in defs):
         return None
-    mapping = {}
-    for a in poly.atoms():
-        if "." in a or "(" in a:
-            continue
-        defs = [v for st, v in assignments_to(f.node, a)]
-        if len(defs) == 1 and defs[0] is not None and a not in params(f.node):
-            p = sympoly(defs[0])
-            if p is not None:
-                mapping[a] = p
-    return _sub(poly, mapping)
-
-
-def _export_offset_ok(ctx, f, ex, B):
-    if ex is None:
-        return False, "export directory position is not tracked"
-    # find the section alias and the rva holder from the atoms
-    atoms = sorted(ex.atoms())
-    rva = [a for a in atoms if a.endswith(".VirtualAddress")]
-    raw = [a for a in atoms if a.endswith(".PointerToRawData")]
-    if len(raw) != 1 or len(rva) != 2:
-        return False, f"export directory parsed at {ex}: not base + (rva - section.VirtualAddress) + section.PointerToRawData"
-    sec = raw[0].rsplit(".", 1)[0]
-    exp = [a for a in rva if not a.startswith(sec + ".")]
-    if len(exp) != 1:
-        return False, f"export directory parsed at {ex}"
-    want = B + SymPoly.atom(exp[0]) - SymPoly.atom(f"{sec}.VirtualAddress") + SymPoly.atom(raw[0])
-    ok = ex == want
-    # the chosen section contains the rva: sec.VA <= rva < sec.VA + sec.VirtualSize  (through `ds = section`)
-    holder = exp[0].rsplit(".", 1)[0]
-    hd = [v for st, v in assignments_to(f.node, holder)]
-    dd_ok = len(hd) == 1 and isinstance(hd[0], ast.Subscript) and src(hd[0].value).endswith(".DataDirectory") and src(hd[0].slice).endswith("IMAGE_DIRECTORY_ENTRY_EXPORT")
-    secdefs = [v for st, v in assignments_to(f.node, sec) if not (isinstance(v, ast.Constant) and v.value is None)]
-    chosen = False
-    for st, v in assignments_to(f.node, sec):
+    out = None
+    for st, v in defs:
+        v = strip_cast(v)
+        got = None
         if isinstance(v, ast.Name):
-            lv = v.id
-            chosen = guarded_by(ctx, f, st, lambda t, lv=lv: True if src(t) in (
-                f"{lv}.VirtualAddress <= {exp[0]} < {lv}.VirtualAddress + {lv}.VirtualSize",) else None)
-    return ok and dd_ok and chosen, f"export directory at {ex} (required {want}); rva from DataDirectory[EXPORT]={dd_ok}; section chosen by VA <= rva < VA + VirtualSize={chosen}"
+            loop = fv.enclosing(st, (ast.For,))
+            while loop is not None and not (isinstance(loop.target, ast.Name) and loop.target.id == v.id):
+                loop = fv.enclosing(loop, (ast.For,))
+            if loop is not None:
+                got = (v.id, loop.iter, _dom_facts(ctx, f, st))
+        elif isinstance(v, ast.Call) and dotted(v.func) == "next" and v.args:
+            g = v.args[0]
+            if isinstance(g, ast.Name):
+                g = cn._origins(g, st)
+                g = g[0][1] if len(g) == 1 else None
+            if isinstance(g, ast.GeneratorExp) and len(g.generators) == 1 and isinstance(g.generators[0].target, ast.Name) \
+                    and isinstance(g.elt, ast.Name) and g.elt.id == g.generators[0].target.id:
+                gen = g.generators[0]
+                got = (gen.target.id, gen.iter, [(c, True) for c in gen.ifs])
+        if got is None or (out is not None and _u(out[1]) != _u(got[1])):
+            return None
+        out = got if out is None else (out[0], out[1], out[2] + got[2]) if out[0] == got[0] else None
+        if out is None:
+            return None
+    return out
+
+
+def _export_ob(ctx, f, v, site, B):
+    cn = v.cn
+    text = "IMAGE_EXPORT_DIRECTORY position"
+    ex = site.cpos
+    if ex is None:
+        ctx.undecided("R2", "CURSOR", f, text, "the stream position before the export directory parse is not tracked", site.node)
+        return
+    rel = ex - B
+    raw = [mon[0] for mon, c in rel.terms.items() if len(mon) == 1 and c == 1 and mon[0].endswith(".PointerToRawData")]
+    form = f"export directory parsed at {ex}; required {B} + (export rva - S.VirtualAddress) + S.PointerToRawData for the section S containing the rva"
+    if len(raw) != 1:
+        ctx.ob("R2", "CURSOR", f, text, False, form, site.node)
+        return
+    sec = raw[0].rsplit(".", 1)[0]
+    rva = _single_atom(rel - SymPoly.atom(raw[0]) + SymPoly.atom(f"{sec}.VirtualAddress"))
+    if rva is None or rva.startswith(sec + "."):
+        ctx.ob("R2", "CURSOR", f, text, False, form, site.node)
+        return
+    dd_ok = _is_export_rva(ctx, f, rva)
+    detail = f"export directory at {ex}; rva from OPT.DataDirectory[EXPORT]={dd_ok}"
+    if not dd_ok:
+        ctx.ob("R2", "CURSOR", f, text, False, detail, site.node)
+        return
+    ch = _section_choice(ctx, f, cn, sec) if sec.isidentifier() else None
+    if ch is None:
+        ctx.ob("R2", "CURSOR", f, text, True, detail, site.node)
+        ctx.undecided("R2", "CURSOR", f, "section containing the export rva", f"cannot identify how the section `{sec}` is chosen from the section table", site.node)
+        return
+    lv, it, facts = ch
+    tab = cn.canon(it, full=True)
+    from_table = any(isinstance(n, ast.Name) and n.id == "SECTION" for n in ast.walk(tab))
+    got = _ineqs(cn, facts, extra={lv: _nm(_SEC)})
+    R = SymPoly.atom(rva)
+    va, vs = SymPoly.atom(f"{_SEC}.VirtualAddress"), SymPoly.atom(f"{_SEC}.VirtualSize")
+    need = {R - va, va + vs - R - SymPoly.const(1)}
+    ctx.ob("R2", "CURSOR", f, text, True, detail, site.node)
+    if not from_table:
+        ctx.undecided("R2", "CURSOR", f, "section containing the export rva", f"the sections searched ({_u(tab)[:80]}) are not recognised as the parsed section table", site.node)
+        return
+    ctx.ob("R2", "CURSOR", f, "section containing the export rva", need <= got,
+           f"section chosen under {sorted(map(repr, got))} >= 0; required S.VirtualAddress <= rva < S.VirtualAddress + S.VirtualSize, i.e. {sorted(map(repr, need))} >= 0", site.node)
+
+
+# ============================================================================ R3: the two scanners
+def _scanner_summary(ctx, f):
+    """Canonical description of what a scanner accepts (names of locals do not occur in it)."""
+    v = _view(ctx, f)
+    cn = v.cn
+    sc = v.scan()
+    out = {"status": sc["status"], "why": sc["why"]}
+    if sc["status"] != "ok":
+        return out
+    A = SymPoly.atom(sc["A"])
+    START = SymPoly.atom("START")
+    rel = lambda p: None if p is None else repr(p - A + START)
+    out["range"] = repr(sc["M"])
+    out["start"] = v.start_expr()
+    out["dos"] = rel(sc["B"])
+    fh_ = v.first("FILE")
+    out["file"] = rel(fh_.cpos) if fh_ is not None else None
+    out["lfanew"] = sorted(repr(p) for p in _ineqs(cn, _dom_facts(ctx, f, fh_.node))) if fh_ is not None else None
+    acc, _rets = _accepts(ctx, f, cn)
+    out["machines"] = sorted(acc)
+    fv = FuncView.of(f.node)
+    eof = {}
+    for role in ("DOS", "FILE"):
+        s = v.first(role)
+        types = set()
+        if s is not None:
+            chain = [s.node] + fv.ancestors(s.node)
+            for child, anc in zip(chain, chain[1:]):
+                if isinstance(anc, ast.Try) and any(child is b for b in anc.body):
+                    types |= {src(h.type) for h in anc.handlers}
+        eof[role] = sorted(types)
+    out["eof"] = eof
+    return out
+
+
+def _tested_fields(ctx, f, cn):
+    tests = [s2.test for s2 in statements(f.node) if isinstance(s2, (ast.If, ast.While, ast.Assert))]
+    for n in ast.walk(f.node):
+        if isinstance(n, ast.IfExp):
+            tests.append(n.test)
+        elif isinstance(n, ast.comprehension):
+            tests.extend(n.ifs)
+        elif isinstance(n, ast.Call) and dotted(n.func) in ("filter", "any", "all"):
+            tests.extend(n.args)
+    out = set()
+    for t in tests:
+        for n in ast.walk(cn.canon(t)):
+            if isinstance(n, ast.Attribute) and isinstance(n.value, ast.Name) and n.value.id in _STRUCT_ROLES:
+                out.add(n.attr)
+    return sorted(out)
 
 
 def r3(ctx):
     a, b = ctx.repo.func("pe.find_mz_offset"), ctx.repo.func("pe.find_architecture")
-
-    def shape(f):
-        out = {}
-        out["range"] = [src(s.iter) for s in statements(f.node) if isinstance(s, ast.For)]
-        out["seeks"] = [src(c) for c in fn_calls(f.node) if isinstance(c.func, ast.Attribute) and c.func.attr == "seek"]
-        out["lfanew"] = [src(s.test) for s in statements(f.node) if isinstance(s, ast.If) and "e_lfanew" in src(s.test)]
-        out["start"] = [src(v) for st, v in assignments_to(f.node, "start_offset") if v is not None]
-        out["eof"] = [src(h.type) for s in statements(f.node) if isinstance(s, ast.Try) for h in s.handlers]
-        return out
-
-    sa, sb = shape(a), shape(b)
-    ctx.ob("R3", "AGREE", a, "find_mz_offset ~ find_architecture", sa == sb, "both scanners use the same range, seeks, e_lfanew constraint, start handling and EOF handling" if sa == sb else f"siblings differ: {sa} vs {sb}")
+    AMD64, I386 = tables.PE_DEFINES["IMAGE_FILE_MACHINE_AMD64"], tables.PE_DEFINES["IMAGE_FILE_MACHINE_I386"]
+    sa, sb = _scanner_summary(ctx, a), _scanner_summary(ctx, b)
+    delegated = sb["status"] == "undecided" and _view(ctx, b).has_mz
+    if delegated:
+        ctx.ob("R3", "AGREE", a, "find_mz_offset ~ find_architecture", True, "find_architecture locates the image through find_mz_offset (one search loop)")
+    elif sa["status"] == "ok" and sb["status"] == "ok":
+        diff = {k: (sa[k], sb[k]) for k in sa if sa[k] != sb[k]}
+        und = [k for k in ("start",) if sa[k] is None or sb[k] is None]
+        if und and not [k for k in diff if k not in und]:
+            ctx.undecided("R3", "AGREE", a, "find_mz_offset ~ find_architecture", "cannot identify how the start of the search is computed in one of the scanners")
+        else:
+            ctx.ob("R3", "AGREE", a, "find_mz_offset ~ find_architecture", not diff,
+                   "both scanners use the same range, start, header positions, e_lfanew constraint, accepted machines and EOF handling" if not diff else f"siblings differ (find_mz_offset vs find_architecture): {diff}")
+    elif "undecided" in (sa["status"], sb["status"]):
+        ctx.undecided("R3", "AGREE", a, "find_mz_offset ~ find_architecture", "candidate loop not identified: " + (sa["why"] or sb["why"]))
+    else:
+        ctx.ob("R3", "AGREE", a, "find_mz_offset ~ find_architecture", False, "candidate position is wrong: " + (sa["why"] or sb["why"]))
     # the magic bytes (e_magic, PE signature) are customisable artifacts that are *reported*: a candidate header is judged
     # by e_lfanew and Machine only, never by its magic
-    from csverif.q import inline as _inl
     for f in (a, b):
-        svars = {dotted(s2.targets[0]) for s2 in statements(f.node) if isinstance(s2, ast.Assign) and isinstance(s2.value, ast.Call) and ctx.rs.resolve_call(f, s2.value).kind == "struct"}
-        tested = sorted({n.attr for s2 in statements(f.node) if isinstance(s2, (ast.If, ast.While)) for n in ast.walk(_inl(f.node, s2.test, stop=frozenset(svars))) if isinstance(n, ast.Attribute) and dotted(n.value) in svars}
-                        | {n.attr for s2 in ast.walk(f.node) if isinstance(s2, (ast.IfExp, ast.Assert)) for n in ast.walk(s2.test) if isinstance(n, ast.Attribute) and dotted(n.value) in svars})
+        v = _view(ctx, f)
+        if not v.parses:
+            ctx.undecided("R3", "AGREE", f, "candidate judged by e_lfanew and Machine only", "no struct parse on the stream is found in the scanner")
+            continue
+        tested = _tested_fields(ctx, f, v.cn)
         extra = [t for t in tested if t not in ("e_lfanew", "Machine")]
-        ctx.ob("R3", "AGREE", f, "candidate judged by e_lfanew and Machine only", bool(svars) and not extra,
+        ctx.ob("R3", "AGREE", f, "candidate judged by e_lfanew and Machine only", not extra,
                f"header fields tested: {tested}" + ("" if not extra else f"; {extra} must not filter candidates (a stage with customised magic would not be located)"), f.node)
-    lf_ok = False
-    for s2 in statements(a.node):
-        if isinstance(s2, ast.If) and "e_lfanew" in src(s2.test):
-            from csverif.astutil import conjuncts as _cj
-            parts = [tr for cj in _cj(s2.test) for tr in compare_parts(cj)]
-            gt0 = any(isinstance(op, ast.Gt) and (dotted(l) or "").endswith(".e_lfanew") and _c(r) == 0 for l, op, r in parts)
-            ltm = any(isinstance(op, ast.Lt) and (dotted(l) or "").endswith(".e_lfanew") and dotted(r) == "maxrange" for l, op, r in parts)
-            lf_ok = gt0 and ltm
-    ctx.ob("R3", "AGREE", a, "e_lfanew constraint", lf_ok, f"constraint {sa['lfanew']} (required 0 < e_lfanew < maxrange)")
-    # machine mapping in find_architecture
-    m = {}
-    for st in statements(b.node):
-        if isinstance(st, ast.If):
-            for l, op, r in compare_parts(st.test):
-                if isinstance(op, ast.Eq) and (dotted(l) or "").endswith(".Machine"):
-                    rets = [s for s in st.body if isinstance(s, ast.Return)]
-                    if rets:
-                        m[(dotted(r) or "").split(".")[-1]] = _c(rets[0].value)
-    ctx.ob("R3", "TABLE", b, "machine -> architecture", m == {"IMAGE_FILE_MACHINE_AMD64": "x64", "IMAGE_FILE_MACHINE_I386": "x86"}, f"mapping {m}")
-    # accepted machines in find_mz_offset
-    acc = []
-    for n in body_walk(a.node):
-        if isinstance(n, ast.Compare) and isinstance(n.ops[0], ast.In) and (dotted(n.left) or "").endswith(".Machine"):
-            acc = sorted((dotted(e) or "").split(".")[-1] for e in n.comparators[0].elts)
-    ctx.ob("R3", "TABLE", a, "accepted machines", acc == ["IMAGE_FILE_MACHINE_AMD64", "IMAGE_FILE_MACHINE_I386"], f"find_mz_offset accepts {acc}")
+    # 0 < e_lfanew < maxrange before the file header is looked at, in both scanners
+    for f in (a, b):
+        v = _view(ctx, f)
+        sc = v.scan()
+        fh_ = v.first("FILE")
+        if f is b and delegated:
+            ctx.ob("R3", "AGREE", f, "e_lfanew constraint", True, "the candidate is located through find_mz_offset, which applies the constraint")
+            continue
+        if sc["status"] == "undecided" or sc["M"] is None or fh_ is None:
+            ctx.undecided("R3", "AGREE", f, "e_lfanew constraint", "candidate loop / file header parse not identified")
+            continue
+        Lf = SymPoly.atom("DOS.e_lfanew")
+        need = {Lf - SymPoly.const(1), sc["M"] - Lf - SymPoly.const(1)}
+        got = _ineqs(v.cn, _dom_facts(ctx, f, fh_.node))
+        ctx.ob("R3", "AGREE", f, "e_lfanew constraint", need <= got, f"file header parsed under {sorted(map(repr, got))} >= 0 (required 0 < e_lfanew < search range, i.e. {sorted(map(repr, need))} >= 0)", fh_.node)
+    # accepted machines / machine -> architecture: case distinction on FILE.Machine over the returns that report a hit
+    acc, rets = _accepts(ctx, a, _view(ctx, a).cn)
+    if not rets:
+        ctx.undecided("R3", "TABLE", a, "accepted machines", "no return of a found offset is identified")
+    else:
+        ctx.ob("R3", "TABLE", a, "accepted machines", sorted(acc) == sorted([AMD64, I386]), f"find_mz_offset reports a hit for Machine in {[hex(x) for x in sorted(acc)]} (required AMD64 {AMD64:#x} and I386 {I386:#x} only)")
+    m, rets = _accepts(ctx, b, _view(ctx, b).cn)
+    if not rets:
+        ctx.undecided("R3", "TABLE", b, "machine -> architecture", "no return of an architecture is identified")
+    else:
+        ctx.ob("R3", "TABLE", b, "machine -> architecture", m == {AMD64: {"x64"}, I386: {"x86"}}, "mapping " + str({hex(k): sorted(map(str, vs)) for k, vs in sorted(m.items())}))
     # 64-bit optional header exactly on AMD64
     for fq in ("pe.find_compile_stamps", "pe.find_stage_prepend_append"):
         f = ctx.repo.func(fq)
-        ok = False
-        for c in fn_calls(f.node):
-            cal = ctx.rs.resolve_call(f, c)
-            if cal.kind == "struct" and cal.struct[2].endswith("IMAGE_OPTIONAL_HEADER64"):
-                conds = [t for t, pol, n in dominating_conditions(ctx, f, c) if pol]
-                ok = any(t.endswith(".Machine == pestruct.IMAGE_FILE_MACHINE_AMD64") for t in conds)
-        ok32 = False
-        for c in fn_calls(f.node):
-            cal = ctx.rs.resolve_call(f, c)
-            if cal.kind == "struct" and cal.struct[2].endswith("IMAGE_OPTIONAL_HEADER"):
-                conds = dominating_conditions(ctx, f, c)
-                ok32 = any((not pol and t.endswith(".Machine == pestruct.IMAGE_FILE_MACHINE_AMD64")) for t, pol, n in conds)
-        ctx.ob("R3", "AGREE", f, "optional header selection", ok and ok32, f"64-bit optional header under Machine == AMD64={ok}; 32-bit one only when it is not AMD64={ok32}")
+        v = _view(ctx, f)
+        opts = [s for s in v.parses if s.role == "OPT"]
+        if not opts:
+            ctx.undecided("R3", "AGREE", f, "optional header selection", "no optional header parse on the stream is found")
+            continue
+        ok, seen = True, {}
+        for s in opts:
+            cases = _machine_cases(ctx, f, v.cn, [(v.cn.canon(n, full=True), pol) for n, pol in _dom_facts(ctx, f, s.node)])
+            is64 = s.what.lstrip("_").endswith("64")
+            seen[s.what.lstrip("_")] = [hex(x) for x in cases]
+            ok = ok and (cases == [AMD64] if is64 else (AMD64 not in cases and I386 in cases))
+        ctx.ob("R3", "AGREE", f, "optional header selection", ok and len(seen) == 2, f"optional header variant parsed for Machine in: {seen} (64-bit one exactly on AMD64, 32-bit one on I386 and never on AMD64)")
 
 
 def r4(ctx):
@@ -270,7 +1031,7 @@ def r4(ctx):
     for name, floor in (("MAX_ENUM_TO_VERSION", 18), ("PE_EXPORT_STAMP_TO_VERSION", 53)):
         node = ctx.repo.const(f"version.{name}")
         if not isinstance(node, ast.Dict):
-            ctx.ob("R4", "TABLE", f"version.py::{name}", "literal", False, "table is not a dict literal")
+            ctx.undecided("R4", "TABLE", f"version.py::{name}", "literal", "the table is not a dict display: its rows cannot be enumerated")
             continue
         rows = []
         keys_seen = set()
@@ -317,29 +1078,393 @@ def r4(ctx):
     # cross-table: a version that appears in both tables has the same date text... (May 02 vs May 04 2019 are distinct builds)
 
 
+# ============================================================================ scenario-wise symbolic execution
+# A small path-enumerating evaluator for loop-free code (loops over literal sequences are unrolled).  Values are
+# expressions over the inputs; a `decide` callback fixes the truth of the tests that define the scenario under analysis,
+# every other undecidable test forks.  Independent of statement shapes: nested ifs, early returns, conditional
+# expressions, temporaries, walrus, tuple unpacking and comprehensions over literal sequences all evaluate to the same values.
+class _Unsupported(Exception):
+    pass
+
+
+_CMP = {ast.Eq: lambda a, b: a == b, ast.NotEq: lambda a, b: a != b, ast.Lt: lambda a, b: a < b, ast.LtE: lambda a, b: a <= b,
+        ast.Gt: lambda a, b: a > b, ast.GtE: lambda a, b: a >= b, ast.Is: lambda a, b: a is b, ast.IsNot: lambda a, b: a is not b,
+        ast.In: lambda a, b: a in b, ast.NotIn: lambda a, b: a not in b}
+_MIRROR = {ast.Eq: ast.Eq, ast.NotEq: ast.NotEq, ast.Lt: ast.Gt, ast.Gt: ast.Lt, ast.LtE: ast.GtE, ast.GtE: ast.LtE}
+_FORKS = "$forks"
+
+
+def _lit(e):
+    try:
+        return const_eval(e)
+    except (NotConst, TypeError, ValueError, KeyError):
+        return _NOCONST
+
+
+class _SymExec:
+    def __init__(self, decide=None, rewrite=None, limit=48):
+        self.decide = decide or (lambda e: None)
+        self.rewrite = rewrite
+        self.limit = limit
+
+    # ---- expressions
+    def truth(self, t):
+        if isinstance(t, ast.Constant):
+            return bool(t.value)
+        if isinstance(t, (ast.Tuple, ast.List)) and not any(isinstance(x, ast.Starred) for x in t.elts):
+            return bool(t.elts)
+        if isinstance(t, ast.UnaryOp) and isinstance(t.op, ast.Not):
+            v = self.truth(t.operand)
+            return None if v is None else (not v)
+        if isinstance(t, ast.BoolOp):
+            vals = [self.truth(v) for v in t.values]
+            if isinstance(t.op, ast.And):
+                return False if any(v is False for v in vals) else True if all(v is True for v in vals) else None
+            return True if any(v is True for v in vals) else False if all(v is False for v in vals) else None
+        if isinstance(t, ast.Call) and dotted(t.func) == "bool" and len(t.args) == 1 and not t.keywords:
+            return self.truth(t.args[0])
+        if isinstance(t, ast.Compare) and len(t.ops) == 1 and type(t.ops[0]) in _CMP:
+            a, b = _lit(t.left), _lit(t.comparators[0])
+            if a is not _NOCONST and b is not _NOCONST:
+                try:
+                    return bool(_CMP[type(t.ops[0])](a, b))
+                except TypeError:
+                    return None
+        return self.decide(t)
+
+    def ev(self, e, env):
+        if e is None:
+            return ast.Constant(value=None)
+        return self.simp(e, env, frozenset())
+
+    def simp(self, e, env, shadow):
+        if isinstance(e, ast.Name):
+            if isinstance(e.ctx, ast.Load) and e.id in env and e.id not in shadow:
+                return copy.deepcopy(env[e.id])
+            return e
+        if isinstance(e, ast.Attribute):
+            d = dotted(e)
+            if d is not None and d in env and d.split(".")[0] not in shadow:
+                return copy.deepcopy(env[d])
+        if isinstance(e, (ast.Lambda, ast.Constant)):
+            return e
+        if isinstance(e, ast.NamedExpr):
+            v = self.simp(e.value, env, shadow)
+            env[e.target.id] = v
+            return v
+        if isinstance(e, ast.IfExp):
+            t = self.simp(e.test, env, shadow)
+            tv = self.truth(t)
+            if tv is not None:
+                return self.simp(e.body if tv else e.orelse, env, shadow)
+            return ast.IfExp(test=t, body=self.simp(e.body, dict(env), shadow), orelse=self.simp(e.orelse, dict(env), shadow))
+        if isinstance(e, ast.BoolOp):
+            vals = []
+            for i, x in enumerate(e.values):
+                sx = self.simp(x, env if not vals else dict(env), shadow)
+                tv = self.truth(sx)
+                last = i == len(e.values) - 1
+                short = tv is True if isinstance(e.op, ast.Or) else tv is False
+                if short:
+                    vals.append(sx)
+                    break
+                if tv is None or last:
+                    vals.append(sx)
+            return vals[0] if len(vals) == 1 else ast.BoolOp(op=e.op, values=vals)
+        if isinstance(e, (ast.GeneratorExp, ast.ListComp, ast.SetComp, ast.DictComp)):
+            x = self._expand(e, env, shadow)
+            if x is not None:
+                return x
+            names = frozenset(n.id for g in e.generators for n in ast.walk(g.target) if isinstance(n, ast.Name))
+            new = copy.copy(e)
+            sh = shadow
+            gens = []
+            for g in e.generators:
+                g2 = copy.copy(g)
+                g2.iter = self.simp(g.iter, env, sh)
+                sh = sh | names
+                g2.ifs = [self.simp(c, env, sh) for c in g.ifs]
+                gens.append(g2)
+            new.generators = gens
+            for fld in ("elt", "key", "value"):
+                if hasattr(e, fld):
+                    setattr(new, fld, self.simp(getattr(e, fld), env, sh))
+            return new
+        new = copy.copy(e)
+        for fld, val in ast.iter_fields(e):
+            if isinstance(val, ast.expr):
+                setattr(new, fld, self.simp(val, env, shadow))
+            elif isinstance(val, list):
+                items = []
+                for x in val:
+                    if isinstance(x, ast.expr):
+                        items.append(self.simp(x, env, shadow))
+                    elif isinstance(x, ast.keyword):
+                        items.append(ast.keyword(arg=x.arg, value=self.simp(x.value, env, shadow)))
+                    else:
+                        items.append(x)
+                setattr(new, fld, items)
+        return self._post(new)
+
+    def _expand(self, e, env, shadow):
+        """A list comprehension / generator over a literal sequence -> the display of its elements."""
+        if isinstance(e, ast.DictComp) or len(e.generators) != 1:
+            return None
+        g = e.generators[0]
+        if g.is_async or not isinstance(g.target, ast.Name):
+            return None
+        it = self.simp(g.iter, env, shadow)
+        if not isinstance(it, (ast.Tuple, ast.List)) or any(isinstance(x, ast.Starred) for x in it.elts):
+            return None
+        elts = []
+        for x in it.elts:
+            en = dict(env)
+            en[g.target.id] = x
+            keep = True
+            for c in g.ifs:
+                tv = self.truth(self.simp(c, en, shadow - {g.target.id}))
+                if tv is None:
+                    return None
+                keep = keep and tv
+            if keep:
+                elts.append(self.simp(e.elt, en, shadow - {g.target.id}))
+        return ast.List(elts=elts, ctx=ast.Load()) if isinstance(e, ast.ListComp) else ast.Tuple(elts=elts, ctx=ast.Load())
+
+    def _post(self, e):
+        if isinstance(e, ast.Call) and dotted(e.func) in ("tuple", "list") and len(e.args) == 1 and not e.keywords and isinstance(e.args[0], (ast.Tuple, ast.List)):
+            return (ast.Tuple if dotted(e.func) == "tuple" else ast.List)(elts=list(e.args[0].elts), ctx=ast.Load())
+        if isinstance(e, ast.Subscript) and isinstance(e.value, (ast.Tuple, ast.List)) and isinstance(e.slice, ast.Constant) and type(e.slice.value) is int \
+                and not any(isinstance(x, ast.Starred) for x in e.value.elts) and -len(e.value.elts) <= e.slice.value < len(e.value.elts):
+            return e.value.elts[e.slice.value]
+        if isinstance(e, ast.Call) and dotted(e.func) == "int" and len(e.args) == 1 and not e.keywords and isinstance(e.args[0], ast.Constant) and type(e.args[0].value) is int:
+            return e.args[0]
+        if self.rewrite is not None:
+            r = self.rewrite(e)
+            if r is not None:
+                return r
+        return e
+
+    # ---- statements
+    def bind(self, target, value, env):
+        if isinstance(target, ast.Name):
+            env[target.id] = value
+        elif isinstance(target, ast.Attribute):
+            d = dotted(target)
+            if d is not None:
+                env[d] = value
+        elif isinstance(target, (ast.Tuple, ast.List)):
+            if any(isinstance(x, ast.Starred) for x in target.elts):
+                raise _Unsupported("starred unpacking")
+            if isinstance(value, (ast.Tuple, ast.List)) and len(value.elts) == len(target.elts) and not any(isinstance(x, ast.Starred) for x in value.elts):
+                for t, x in zip(target.elts, value.elts):
+                    self.bind(t, x, env)
+            else:
+                for i, t in enumerate(target.elts):
+                    self.bind(t, ast.Subscript(value=value, slice=ast.Constant(value=i), ctx=ast.Load()), env)
+        elif isinstance(target, ast.Subscript):
+            d = dotted(target.value)
+            if d is not None:
+                env.pop(d, None)
+
+    def run(self, body, env=None):
+        """[(signal, value, env)] with signal in return/raise/next (fell off the end)."""
+        return self._block(body, dict(env or {}))
+
+    def _block(self, body, env):
+        states, out = [env], []
+        for st in body:
+            nxt = []
+            for en in states:
+                for sig, val, e2 in self._stmt(st, en):
+                    if sig == "next":
+                        nxt.append(e2)
+                    else:
+                        out.append((sig, val, e2))
+            states = nxt
+            if len(states) + len(out) > self.limit:
+                raise _Unsupported("too many paths")
+        return out + [("next", None, en) for en in states]
+
+    def _stmt(self, st, env):
+        if isinstance(st, ast.Assign):
+            v = self.ev(st.value, env)
+            for t in st.targets:
+                self.bind(t, v, env)
+            return [("next", None, env)]
+        if isinstance(st, ast.AnnAssign):
+            if st.value is not None:
+                self.bind(st.target, self.ev(st.value, env), env)
+            return [("next", None, env)]
+        if isinstance(st, ast.AugAssign):
+            cur = self.ev(ast.Name(id=st.target.id, ctx=ast.Load()) if isinstance(st.target, ast.Name) else copy.deepcopy(st.target), env)
+            self.bind(st.target, self._post(ast.BinOp(left=cur, op=st.op, right=self.ev(st.value, env))), env)
+            return [("next", None, env)]
+        if isinstance(st, ast.Expr):
+            c = st.value
+            if isinstance(c, ast.Call) and isinstance(c.func, ast.Attribute) and isinstance(c.func.value, ast.Name) and c.func.value.id in env:
+                # a method call on a tracked local may change it in place: list displays are updated, anything else is forgotten
+                x, cur = c.func.value.id, env[c.func.value.id]
+                args = [self.ev(a, env) for a in c.args]
+                if isinstance(cur, ast.List) and c.func.attr == "append" and len(args) == 1 and not c.keywords:
+                    env[x] = ast.List(elts=list(cur.elts) + args, ctx=ast.Load())
+                elif isinstance(cur, ast.List) and c.func.attr == "extend" and len(args) == 1 and isinstance(args[0], (ast.List, ast.Tuple)) and not c.keywords:
+                    env[x] = ast.List(elts=list(cur.elts) + list(args[0].elts), ctx=ast.Load())
+                elif isinstance(cur, (ast.List, ast.Dict, ast.Set, ast.ListComp, ast.DictComp, ast.SetComp)) or (isinstance(cur, ast.Call) and dotted(cur.func) in ("list", "dict", "set", "bytearray")):
+                    env[x] = ast.Call(func=_nm("changed_in_place"), args=[cur], keywords=[])
+                return [("next", None, env)]
+            self.ev(c, env)
+            return [("next", None, env)]
+        if isinstance(st, (ast.Pass, ast.Assert, ast.Import, ast.ImportFrom, ast.Global, ast.Nonlocal)):
+            return [("next", None, env)]
+        if isinstance(st, ast.Return):
+            return [("return", self.ev(st.value, env), env)]
+        if isinstance(st, ast.Raise):
+            return [("raise", None, env)]
+        if isinstance(st, ast.Break):
+            return [("break", None, env)]
+        if isinstance(st, ast.Continue):
+            return [("continue", None, env)]
+        if isinstance(st, ast.If):
+            t = self.ev(st.test, env)
+            tv = self.truth(t)
+            if tv is True:
+                return self._block(st.body, env)
+            if tv is False:
+                return self._block(st.orelse, env)
+            e1, e2 = dict(env), dict(env)
+            e1[_FORKS] = e2[_FORKS] = env.get(_FORKS, ()) + (_u(t),)
+            return self._block(st.body, e1) + self._block(st.orelse, e2)
+        if isinstance(st, ast.With):
+            for it in st.items:
+                v = self.ev(it.context_expr, env)
+                if it.optional_vars is not None:
+                    self.bind(it.optional_vars, v, env)
+            return self._block(st.body, env)
+        if isinstance(st, ast.For):
+            it = self.ev(st.iter, env)
+            if not isinstance(it, (ast.Tuple, ast.List)) or any(isinstance(x, ast.Starred) for x in it.elts):
+                raise _Unsupported("loop over " + _u(it)[:60])
+            states, out, done = [env], [], []
+            for x in it.elts:
+                nxt = []
+                for en in states:
+                    en = dict(en)
+                    self.bind(st.target, x, en)
+                    for sig, val, e2 in self._block(st.body, en):
+                        if sig in ("next", "continue"):
+                            nxt.append(e2)
+                        elif sig == "break":
+                            done.append(e2)
+                        else:
+                            out.append((sig, val, e2))
+                states = nxt
+                if len(states) + len(out) + len(done) > self.limit:
+                    raise _Unsupported("too many paths")
+            for en in states:
+                out.extend(self._block(st.orelse, en))
+            return out + [("next", None, en) for en in done]
+        raise _Unsupported(type(st).__name__ + " statement")
+
+
+def _uncertain(env, pattern):
+    """The path forked on a test that does not mention the scenario's inputs: it may be infeasible."""
+    return any(not re.search(pattern, t) for t in env.get(_FORKS, ()))
+
+
+def _norm_text(expr_src):
+    return _u(ast.parse(expr_src, mode="eval").body)
+
+
+# ============================================================================ R5: version deduction
+_TABLE_OF = {"from_pe_export_stamp": "PE_EXPORT_STAMP_TO_VERSION", "from_max_setting_enum": "MAX_ENUM_TO_VERSION"}
+
+
 def r5(ctx):
+    _r5_precedence(ctx)
+    _r5_lookups(ctx)
+    _r5_regex(ctx)
+    _r5_init(ctx)
+
+
+def _r5_precedence(ctx):
     f = ctx.repo.func("beacon.BeaconConfig.version")
-    cfg = ctx.cfg(f)
-    rets = cfg.return_stmts()
-    shape = {}
-    for r in rets:
-        v = r.value
-        if isinstance(v, ast.Call):
-            conds = dominating_conditions(ctx, f, r)
-            under = [(t, pol) for t, pol, n in conds if t == "self.pe_export_stamp"]
-            shape[dotted(v.func)] = (src(v.args[0]) if v.args else None, under)
-    a = shape.get("BeaconVersion.from_pe_export_stamp")
-    b = shape.get("BeaconVersion.from_max_setting_enum")
-    ok = a is not None and b is not None and a[0] == "self.pe_export_stamp" and a[1] == [("self.pe_export_stamp", True)] and b[0] == "self.max_setting_enum" and ("self.pe_export_stamp", True) not in b[1]
-    ctx.ob("R5", "DOM", f, "version precedence", ok, "export stamp decides when present, otherwise the highest setting index" if ok else f"precedence is {shape}")
-    for meth, table, arg in (("from_pe_export_stamp", "PE_EXPORT_STAMP_TO_VERSION", None), ("from_max_setting_enum", "MAX_ENUM_TO_VERSION", None)):
+    text = "version precedence"
+    STAMP = "self.pe_export_stamp"
+
+    # the export stamp is None (no export directory), 0, or a non-zero timestamp: three concrete scenarios
+    def scenario(s):
+        def rewrite(e):
+            if s != "set" and isinstance(e, ast.Attribute) and _u(e) == STAMP:
+                return ast.Constant(value=None if s == "none" else 0)
+            return None
+
+        def decide(t):
+            if s != "set":
+                return None
+            if _u(t) == STAMP:
+                return True
+            if isinstance(t, ast.Compare) and len(t.ops) == 1:
+                l, op, r = t.left, type(t.ops[0]), t.comparators[0]
+                if _u(r) == STAMP and op in _MIRROR:
+                    l, op, r = r, _MIRROR[op], l
+                if _u(l) == STAMP:
+                    if is_none(r) and op in (ast.Is, ast.IsNot, ast.Eq, ast.NotEq):
+                        return op in (ast.IsNot, ast.NotEq)
+                    if _lit(r) == 0 and type(_lit(r)) is int:  # a non-zero unsigned timestamp
+                        return {ast.Eq: False, ast.NotEq: True, ast.Gt: True, ast.GtE: True, ast.Lt: False, ast.LtE: False}.get(op)
+            return None
+        return rewrite, decide
+
+    FROM_PE, FROM_MAX = ("version.BeaconVersion.from_pe_export_stamp", STAMP), ("version.BeaconVersion.from_max_setting_enum", "self.max_setting_enum")
+    want = {"set": FROM_PE, "none": FROM_MAX, "zero": FROM_MAX}
+    label = {"set": "export stamp present", "none": "no export stamp", "zero": "export stamp 0"}
+    bad, seen = [], {}
+    try:
+        for s in ("set", "none", "zero"):
+            rewrite, decide = scenario(s)
+            outs = _SymExec(decide, rewrite).run(f.node.body)
+            for sig, val, env in outs:
+                if sig == "raise":
+                    continue
+                cal = ctx.rs.resolve_call(f, val) if isinstance(val, ast.Call) else None
+                if cal is None or cal.kind != "func" or cal.func is None or cal.fq not in (FROM_PE[0], FROM_MAX[0]):
+                    ctx.undecided("R5", "DOM", f, text, f"the returned value {_u(val)[:80] if val is not None else None} is not a call of one of the two BeaconVersion lookups")
+                    return
+                ba = bind_args(val, cal.func.node, skip_self=True)
+                arg = next(iter(ba.values()), None)
+                got = (cal.fq, _u(arg) if arg is not None else None)
+                seen.setdefault(s, set()).add(got)
+                if got != want[s]:
+                    bad.append(f"{label[s]}: returns {got[0].split('.')[-1]}({got[1]})" + (f" (path condition {env[_FORKS]})" if env.get(_FORKS) else ""))
+    except _Unsupported as e:
+        ctx.undecided("R5", "DOM", f, text, f"the property body cannot be evaluated symbolically ({e})")
+        return
+    ok = not bad and len(seen) == 3
+    ctx.ob("R5", "DOM", f, text, ok, "export stamp decides when present, otherwise the highest setting index" if ok else "; ".join(bad) or f"precedence is {seen}")
+
+
+def _r5_lookups(ctx):
+    tables_ = set(_TABLE_OF.values())
+    for meth, table in _TABLE_OF.items():
         g = ctx.repo.func(f"version.BeaconVersion.{meth}")
-        gets = [c for c in fn_calls(g.node) if isinstance(c.func, ast.Attribute) and c.func.attr == "get"]
-        p = params(g.node)[1]
-        ok = len(gets) == 1 and dotted(gets[0].func.value) == table and dotted(gets[0].args[0]) == p and _c(gets[0].args[1] if len(gets[0].args) > 1 else None) == "Unknown"
-        ctx.ob("R5", "AGREE", g, f"{table}.get({p}, 'Unknown')", ok, "looks up its own table with default 'Unknown'" if ok else f"lookup is {[src(c) for c in gets]}")
-    init = ctx.repo.func("version.BeaconVersion.__init__")
-    rx = _c(ctx.repo.class_attrs("version.BeaconVersion").get("REGEX_VERSION"))
+        ps = params(g.node)
+        p = ps[1] if len(ps) > 1 else None
+        text = f"{table}.get(<argument>, 'Unknown')"
+        try:
+            vals = [val for sig, val, _e in _SymExec().run(g.node.body) if sig == "return"]
+        except _Unsupported:
+            vals = [_Canon(ctx, g).canon(r.value, full=True) for r in ctx.cfg(g).return_stmts() if r.value is not None]
+        gets = [c for val in vals for c in ast.walk(val) if isinstance(c, ast.Call) and isinstance(c.func, ast.Attribute) and c.func.attr == "get" and dotted(c.func.value) in tables_]
+        if not gets or p is None:
+            ctx.undecided("R5", "AGREE", g, text, "no `.get` lookup in one of the version tables flows into the returned value")
+            continue
+        ok = len(gets) == 1 and dotted(gets[0].func.value) == table and len(gets[0].args) == 2 and not gets[0].keywords \
+            and _u(gets[0].args[0]) == p and _c(gets[0].args[1], module_env(g.module)) == "Unknown"
+        ctx.ob("R5", "AGREE", g, text, ok, "looks up its own table with default 'Unknown'" if ok else f"lookup is {[_u(c) for c in gets]}")
+
+
+def _r5_regex(ctx):
+    rx = _c(ctx.repo.class_attrs("version.BeaconVersion").get("REGEX_VERSION"), module_env(ctx.repo.module("version")))
     groups = re.findall(r"\?P<(\w+)>", rx or "")
     ctx.ob("R5", "TABLE", "version.py::BeaconVersion.REGEX_VERSION", "named groups", groups == ["major", "minor", "patch", "date"], f"named groups {groups}")
     try:
@@ -348,48 +1473,294 @@ def r5(ctx):
     except Exception:
         sample_ok = False
     ctx.ob("R5", "TABLE", "version.py::BeaconVersion.REGEX_VERSION", "pattern", sample_ok, "the version regex separates major/minor/optional patch/date")
-    from csverif.astutil import find_match, pmatch
-    mv = next((dotted(s2.targets[0]) for s2 in statements(init.node) if isinstance(s2, ast.Assign) and isinstance(s2.value, ast.Call) and dotted(s2.value.func) in ("re.match", "re.fullmatch")), "m")
-    t3 = any(find_match("(int($m.group('major')), int($m.group('minor')), int($m.group('patch')))", s2, {"m": mv}) for s2 in statements(init.node) if isinstance(s2, ast.Assign))
-    t2 = any(find_match("(int($m.group('major')), int($m.group('minor')))", s2, {"m": mv}) for s2 in statements(init.node) if isinstance(s2, ast.Assign))
-    def _unnot(t):
-        while isinstance(t, ast.UnaryOp) and isinstance(t.op, ast.Not):
-            t = t.operand
-        return t
-    pg = any(isinstance(s2, ast.If) and pmatch("$m.group('patch')", _unnot(s2.test), {"m": mv}) is not None for s2 in statements(init.node))
-    dt = any(find_match("datetime.datetime.strptime($m.group('date'), '%b %d, %Y')", s2, {"m": mv}) for s2 in statements(init.node) if isinstance(s2, ast.Assign))
-    ctx.ob("R5", "AGREE", init, "tuple/date from the named groups", t3 and t2 and pg and dt, f"3-tuple with patch={t3}; 2-tuple without={t2}; arity decided by the patch group={pg}; date parsed from the date group with '%b %d, %Y'={dt}")
+
+
+def _match_rewrite(e):
+    """re.match(..) -> M ; M['k'] / M.groupdict()['k'] -> M.group('k')"""
+    if isinstance(e, ast.Call):
+        d = dotted(e.func) or ""
+        if d in ("re.match", "re.fullmatch", "re.search") or (isinstance(e.func, ast.Attribute) and e.func.attr in ("match", "fullmatch", "search") and not d.startswith("M.")):
+            return _nm("M")
+    if isinstance(e, ast.Subscript) and isinstance(e.slice, ast.Constant) and isinstance(e.slice.value, str):
+        if _u(e.value) in ("M", "M.groupdict()"):
+            return ast.Call(func=ast.Attribute(value=_nm("M"), attr="group", ctx=ast.Load()), args=[e.slice], keywords=[])
+    return None
+
+
+def _r5_init(ctx):
+    init = ctx.repo.func("version.BeaconVersion.__init__")
+    text = "tuple/date from the named groups"
+    PATCH = _norm_text("M.group('patch')")
+
+    def scenario(present):
+        def rewrite(e):
+            r = _match_rewrite(e)
+            if not present and _u(r if r is not None else e) == PATCH:
+                return ast.Constant(value=None)  # the optional group did not take part in the match
+            return r
+
+        def decide(t):
+            x = _u(t)
+            if x == "M":
+                return True
+            if x == PATCH:  # a group that matched is a non-empty string of digits
+                return True
+            if isinstance(t, ast.Compare) and len(t.ops) == 1 and type(t.ops[0]) in (ast.Is, ast.IsNot, ast.Eq, ast.NotEq):
+                l, r = _u(t.left), t.comparators[0]
+                if l in ("M", PATCH) and (is_none(r) or (l == PATCH and _lit(r) == "")):
+                    return type(t.ops[0]) in (ast.IsNot, ast.NotEq)
+            return None
+        return rewrite, decide
+
+    g = lambda k: f"int(M.group('{k}'))"
+    want = {True: _norm_text(f"({g('major')}, {g('minor')}, {g('patch')})"), False: _norm_text(f"({g('major')}, {g('minor')})")}
+    bad, checked, dates = [], 0, []
+    try:
+        for present in (True, False):
+            rewrite, decide = scenario(present)
+            for sig, _val, env in _SymExec(decide, rewrite).run(init.node.body):
+                if sig == "raise" or _uncertain(env, r"\bM\b"):
+                    continue
+                tup = env.get("self.tuple")
+                if tup is None or not any(isinstance(n, ast.Name) and n.id == "M" for n in ast.walk(tup)):
+                    ctx.undecided("R5", "AGREE", init, text, f"self.tuple is not computed from the match groups in the constructor (value: {_u(tup)[:80] if tup is not None else None})")
+                    return
+                checked += 1
+                if _u(tup) != want[present]:
+                    bad.append(f"patch group {'present' if present else 'absent'}: self.tuple = {_u(tup)[:160]} (required {want[present]})")
+                dates.append(env.get("self.date"))
+    except _Unsupported as e:
+        ctx.undecided("R5", "AGREE", init, text, f"the constructor cannot be evaluated symbolically ({e})")
+        return
+    if not checked:
+        ctx.undecided("R5", "AGREE", init, text, "no path of the constructor that assigns self.tuple after a successful match is identified")
+        return
+    dt = True
+    for d in dates:
+        hit = False
+        for n in ast.walk(d) if d is not None else ():
+            if isinstance(n, ast.Call) and isinstance(n.func, ast.Attribute) and n.func.attr == "strptime" and len(n.args) == 2 and not n.keywords \
+                    and _u(n.args[0]) == _norm_text("M.group('date')") and _c(n.args[1], module_env(init.module)) == "%b %d, %Y":
+                hit = True
+        dt = dt and hit
+    ok = not bad and dt
+    ctx.ob("R5", "AGREE", init, text, ok, "3-tuple exactly when the patch group matched, 2-tuple otherwise, elements int() of the named groups; date parsed from the date group with '%b %d, %Y'"
+           if ok else "; ".join(bad + ([] if dt else ["self.date is not strptime(<date group>, '%b %d, %Y')"])))
+
+
+# ============================================================================ R6: prepend / append / magic_mz
+def _accumulator(cn, name):
+    """`name = E0` followed by unconditional `name += E` in `for x in T` loops: (E0, [(T, x, E)])."""
+    fn = cn.fn
+    fv = FuncView.of(fn)
+    init, parts = [], []
+    for st, v in assignments_to(fn, name):
+        add = None
+        if v is None and isinstance(st, ast.AugAssign) and isinstance(st.op, ast.Add):
+            add = st.value
+        elif v is not None and isinstance(v, ast.BinOp) and isinstance(v.op, ast.Add) and isinstance(v.left, ast.Name) and v.left.id == name:
+            add = v.right
+        elif v is not None and isinstance(st, (ast.Assign, ast.AnnAssign)) and not any(isinstance(x, ast.Name) and x.id == name for x in ast.walk(v)):
+            init.append(v)
+            continue
+        if add is None:
+            return None
+        loop = fv.parent.get(id(st))
+        if not (isinstance(loop, ast.For) and isinstance(loop.target, ast.Name) and any(st is b for b in loop.body) and not loop.orelse):
+            return None
+        if any(isinstance(n, (ast.Break, ast.Continue, ast.Return)) for n in ast.walk(loop)):
+            return None
+        parts.append((loop.iter, loop.target.id, add))
+    if len(init) != 1 or not parts:
+        return None
+    return init[0], parts
+
+
+def _sum_atom(cn, it, var, elt, sums):
+    tab = cn.canon(it, full=True)
+    ep = cn.poly(elt, extra={var: _nm(_SEC)})
+    name = f"SUM[{_u(tab)}]({ep!r})"
+    whole = isinstance(tab, (ast.ListComp, ast.GeneratorExp)) and len(tab.generators) == 1 and not tab.generators[0].ifs and _u(tab.elt) == "SECTION"
+    if not any(isinstance(n, ast.Name) and n.id == "SECTION" for n in ast.walk(tab)):
+        whole = None  # not recognised as (a part of) the parsed section table
+    sums[name] = (whole, ep)
+    return SymPoly.atom(name)
+
+
+def _expand_sums(cn, poly):
+    """Replace accumulator locals and `sum(.. for x in T)` atoms by SUM atoms; -> (poly, {atom: (over the whole section table, element poly)})."""
+    sums, mapping = {}, {}
+    for a in poly.atoms():
+        if a.isidentifier():
+            acc = _accumulator(cn, a)
+            if acc is not None:
+                p = cn.poly(acc[0])
+                for it, var, elt in acc[1]:
+                    p = p + _sum_atom(cn, it, var, elt, sums)
+                mapping[a] = p
+            else:
+                defs = assignments_to(cn.fn, a)
+                if a not in cn.pars and len(defs) == 1 and defs[0][1] is not None and isinstance(defs[0][0], (ast.Assign, ast.AnnAssign)) \
+                        and not any(isinstance(x, ast.Name) and x.id == a for x in ast.walk(defs[0][1])):
+                    p = cn.poly(defs[0][1])
+                    if p != SymPoly.atom(a):
+                        mapping[a] = p
+        elif a.startswith("sum("):
+            try:
+                e = ast.parse(a, mode="eval").body
+            except SyntaxError:
+                continue
+            if isinstance(e, ast.Call) and len(e.args) in (1, 2) and not e.keywords and isinstance(e.args[0], (ast.GeneratorExp, ast.ListComp)) and len(e.args[0].generators) == 1:
+                g = e.args[0].generators[0]
+                if isinstance(g.target, ast.Name) and not g.ifs:
+                    p = _sum_atom(cn, g.iter, g.target.id, e.args[0].elt, sums)
+                    if len(e.args) == 2:
+                        p = p + _poly(e.args[1])
+                    mapping[a] = p
+    if not mapping:
+        return poly, sums
+    p2, s2 = _expand_sums(cn, _sub(poly, mapping))
+    sums.update(s2)
+    return p2, sums
 
 
 def r6(ctx):
     f = ctx.repo.func("pe.find_stage_prepend_append")
-    fh = params(f.node)[0]
-    sites = CursorWalk(ctx, f, fh).run()
-    mz = next((dotted(s2.targets[0]) for s2 in statements(f.node) if isinstance(s2, ast.Assign) and isinstance(s2.value, ast.Call) and ctx.rs.resolve_call(f, s2.value).fq == "pe.find_mz_offset"), "mz_offset")
-    finals = [r for r in statements(f.node) if isinstance(r, ast.Return) and isinstance(r.value, ast.Tuple) and len(r.value.elts) == 2 and all(isinstance(e, ast.Name) for e in r.value.elts)]
-    PRE, APP = (finals[-1].value.elts[0].id, finals[-1].value.elts[1].id) if finals else ("prepend", "append")
-    pre = [s for s in sites if s.kind == "read" and s.what == mz]
-    ok = len(pre) == 1 and pre[0].pos == SymPoly.const(0) and pre[0].var == PRE and guarded_by(ctx, f, pre[0].node, lambda t: True if any(isinstance(op, ast.Gt) and dotted(l) == mz and _c(r) == 0 for l, op, r in compare_parts(t)) else None)
-    ctx.ob("R6", "CURSOR", f, "prepend = bytes [0, mz_offset)", bool(ok), "prepend is read from offset 0 for mz_offset bytes when the image does not start the file" if ok else "prepend read is not fh.seek(0); fh.read(mz_offset) under mz_offset > 0")
-    ap = [s for s in sites if s.kind == "read" and s.var == APP]
-    SZ = None
-    if len(ap) == 1 and ap[0].pos is not None:
-        rest = ap[0].pos - SymPoly.atom(mz)
-        if len(rest.terms) == 1 and len(rest.atoms()) == 1:
-            SZ = next(iter(rest.atoms()))
-    sz = {src(v) for st, v in assignments_to(f.node, SZ) if v is not None} if SZ else set()
-    aug = [s for s in statements(f.node) if isinstance(s, ast.AugAssign) and dotted(s.target) == SZ]
-    ok = len(ap) == 1 and SZ is not None and any(x.endswith(".SizeOfHeaders") for x in sz) and len(aug) == 1 and src(aug[0].value).endswith(".SizeOfRawData") and isinstance(aug[0].op, ast.Add)
-    ctx.ob("R6", "CURSOR", f, "append position", bool(ok), f"append read at {ap[0].pos if ap else None}; required mz_offset + SizeOfHeaders + sum(SizeOfRawData)")
+    v = _view(ctx, f)
+    cn = v.cn
+    MZ = SymPoly.atom("MZ")
+    pairs = [r.value if isinstance(r.value, ast.Tuple) else cn.canon(r.value) for r in ctx.cfg(f).return_stmts() if r.value is not None]
+    pairs = [p for p in pairs if isinstance(p, ast.Tuple) and len(p.elts) == 2]
+    t_pre, t_app = "prepend = bytes [0, mz_offset)", "append position"
+    # ---- prepend: the read that flows into the first element of the returned pair
+    pre = _reads_into(v, [p.elts[0] for p in pairs if not is_none(p.elts[0])])
+    app = [s for s in _reads_into(v, [p.elts[1] for p in pairs if not is_none(p.elts[1])]) if not any(s is x for x in pre)]
+    pre = [s for s in pre if not any(s is x for x in _reads_into(v, [p.elts[1] for p in pairs if not is_none(p.elts[1])]))] or pre
+    if not v.has_mz or len(pre) != 1:
+        ctx.undecided("R6", "CURSOR", f, t_pre, f"{len(pre)} stream reads flow into the first element of the returned pair / image base not identified")
+    else:
+        s = pre[0]
+        ln = cn.poly(s.node.args[0]) if s.node.args else None
+        facts = _dom_facts(ctx, f, s.node)
+        # the read is not executed when the image starts the file: some dominating condition is false for MZ == 0
+        zero = _SymExec()
+        guard = any(zero.truth(zero.ev(_subst(cn.canon(n), {"MZ": ast.Constant(value=0)}), {})) is (not pol) for t, p0 in facts for n, pol in _flatten(t, p0))
+        if s.cpos is None:
+            _untracked(ctx, "R6", f, t_pre, v, s, "prepend read")
+        else:
+            ok = s.cpos == SymPoly() and ln == MZ and guard
+            ctx.ob("R6", "CURSOR", f, t_pre, ok, f"prepend: {ln} bytes read at {s.cpos} (required: MZ bytes at 0), only when the image does not start the file: {guard}", s.node)
+    # ---- append: read at image base + SizeOfHeaders + sum of SizeOfRawData over the section table
+    if not v.has_mz or len(app) != 1:
+        ctx.undecided("R6", "CURSOR", f, t_app, f"{len(app)} stream reads flow into the second element of the returned pair / image base not identified")
+    elif app[0].cpos is None:
+        _untracked(ctx, "R6", f, t_app, v, app[0], "append read")
+    else:
+        pos, sums = _expand_sums(cn, app[0].cpos)
+        locs = sorted(a for a in pos.atoms() if a.isidentifier() and a not in cn.pars and a != "MZ" and assignments_to(cn.fn, a))
+        good = [a for a, (whole, ep) in sums.items() if whole and ep == SymPoly.atom(f"{_SEC}.SizeOfRawData")]
+        want = MZ + SymPoly.atom("OPT.SizeOfHeaders") + (SymPoly.atom(good[0]) if good else SymPoly.atom("SUM[section table](SEC.SizeOfRawData)"))
+        unknown_tab = [a for a, (whole, _ep) in sums.items() if whole is None and a in pos.atoms()]
+        if (locs or unknown_tab) and pos != want:
+            ctx.undecided("R6", "CURSOR", f, t_app, f"append read at {pos}: cannot identify how the locals {locs} are computed / the iterable summed over is not recognised as the section table", app[0].node)
+        else:
+            ctx.ob("R6", "CURSOR", f, t_app, pos == want, f"append read at {pos}; required MZ + OPT.SizeOfHeaders + sum(SizeOfRawData over the section table)", app[0].node)
+    _r6_magic_mz(ctx)
+
+
+def _r6_magic_mz(ctx):
     g = ctx.repo.func("pe.find_magic_mz")
-    from csverif.astutil import pmatch
-    rets = [s for s in statements(g.node) if isinstance(s, ast.Return) and isinstance(s.value, ast.Subscript)]
-    m = pmatch("$d[:$p]", rets[0].value) if len(rets) == 1 else None
-    ok = m is not None
-    finds = [c for c in fn_calls(g.node) if isinstance(c.func, ast.Attribute) and c.func.attr == "find"]
-    ok = ok and sorted(dotted(c.args[0]) or "" for c in finds) == ["DOSHEADER_X64", "DOSHEADER_X86"] and all(dotted(c.func.value) == m["d"] for c in finds)
-    ok = ok and all(any(c is x for c in finds) or isinstance(v, ast.IfExp) for st, v in assignments_to(g.node, m["p"]) for x in [origin(g.node, v)] if v is not None) if ok else ok
-    env = module_env(ctx.repo.module("pe"))
-    stubs = (_c(ctx.repo.const("pe.DOSHEADER_X64"), env), _c(ctx.repo.const("pe.DOSHEADER_X86"), env))
-    ok = ok and stubs == (bytes.fromhex("554889e54881"), bytes.fromhex("e8000000005b"))
-    ctx.ob("R6", "AGREE", g, "magic_mz = prefix before the stub", ok, f"returns the bytes before the first known DOS stub ({[s.hex() if s else None for s in stubs]})" if ok else "magic_mz is not data[:pos] of the known stub byte strings")
+    text = "magic_mz = prefix before the stub"
+    X64, X86 = bytes.fromhex("554889e54881"), bytes.fromhex("e8000000005b")
+    env = module_env(g.module)
+    for nm, ref in (("DOSHEADER_X64", X64), ("DOSHEADER_X86", X86)):
+        if nm in g.module.consts:
+            val = _c(g.module.consts[nm], env)
+            ctx.ob("R6", "TABLE", "pe.py::" + nm, "DOS stub bytes", val == ref, f"{nm} = {val.hex() if isinstance(val, bytes) else val} (reference {ref.hex()})")
+    # the window searched starts at the image base
+    v = _view(ctx, g)
+    rets = [r.value for r in ctx.cfg(g).return_stmts() if r.value is not None and not is_none(r.value)]
+    reads = _reads_into(v, rets)
+    if v.has_mz and len(reads) == 1 and reads[0].cpos is not None:
+        ctx.ob("R6", "CURSOR", g, "magic_mz window starts at the image base", reads[0].cpos == SymPoly.atom("MZ"), f"searched bytes read at {reads[0].cpos}; required MZ", reads[0].node)
+    elif v.has_mz and len(reads) == 1:
+        _untracked(ctx, "R6", g, "magic_mz window starts at the image base", v, reads[0], "read of the bytes searched")
+    else:
+        ctx.undecided("R6", "CURSOR", g, "magic_mz window starts at the image base", f"{len(reads)} stream reads flow into the returned value / position not tracked")
+
+    def stub_of(e):
+        c = _const_of(ctx, g, e)
+        return "X86" if c == X86 else "X64" if c == X64 else None
+
+    def scenario(found):
+        def rewrite(e):
+            if isinstance(e, ast.Call):
+                if isinstance(e.func, ast.Attribute) and e.func.attr in ("find", "index") and len(e.args) == 1 and not e.keywords:
+                    k = stub_of(e.args[0])
+                    if k is not None and found[k]:
+                        return ast.Call(func=_nm("FOUND_" + k), args=[e.func.value], keywords=[])
+                    if k is not None and e.func.attr == "find":
+                        return ast.Constant(value=-1)
+                cal = ctx.rs.resolve_call(g, e)
+                if cal.kind == "func" and cal.fq == "pe.find_mz_offset":
+                    return _nm("MZ")
+            return None
+
+        def decide(t):
+            if isinstance(t, ast.Compare) and len(t.ops) == 1:
+                l, op, r = t.left, type(t.ops[0]), t.comparators[0]
+                if _u(l) == "MZ" and is_none(r) and op in (ast.Is, ast.IsNot):
+                    return op is ast.IsNot
+                if op in (ast.In, ast.NotIn):
+                    k = stub_of(l)
+                    if k is not None:
+                        return found[k] if op is ast.In else not found[k]
+                if op in _MIRROR and isinstance(r, ast.Call) and isinstance(r.func, ast.Name) and r.func.id.startswith("FOUND_"):
+                    l, op, r = r, _MIRROR[op], l
+                if isinstance(l, ast.Call) and isinstance(l.func, ast.Name) and l.func.id.startswith("FOUND_"):
+                    c = _lit(r)
+                    if type(c) is int:  # a found index is >= 0
+                        if op is ast.Eq:
+                            return False if c < 0 else None
+                        if op is ast.NotEq:
+                            return True if c < 0 else None
+                        if op is ast.Lt:
+                            return False if c <= 0 else None
+                        if op is ast.LtE:
+                            return False if c < 0 else None
+                        if op is ast.Gt:
+                            return True if c < 0 else None
+                        if op is ast.GtE:
+                            return True if c <= 0 else None
+            return None
+        return rewrite, decide
+
+    bad, checked = [], 0
+    try:
+        for f86 in (True, False):
+            for f64 in (True, False):
+                rewrite, decide = scenario({"X86": f86, "X64": f64})
+                want = "X86" if f86 else "X64" if f64 else None
+                for sig, val, en in _SymExec(decide, rewrite).run(g.node.body):
+                    if sig == "raise" or _uncertain(en, r"\bMZ\b|FOUND_"):
+                        continue
+                    val = val if val is not None else ast.Constant(value=None)
+                    if not (is_none(val) or (isinstance(val, ast.Subscript) and isinstance(val.slice, ast.Slice))):
+                        ctx.undecided("R6", "AGREE", g, text, f"the returned value {_u(val)[:80]} is neither None nor a slice of the bytes searched")
+                        return
+                    checked += 1
+                    if want is None:
+                        ok = is_none(val)
+                    else:
+                        ok = isinstance(val, ast.Subscript) and isinstance(val.slice, ast.Slice) and val.slice.step is None \
+                            and (val.slice.lower is None or _lit(val.slice.lower) == 0) and val.slice.upper is not None \
+                            and _u(val.slice.upper) == f"FOUND_{want}({_u(val.value)})"
+                    if not ok:
+                        bad.append(f"x86 stub {'found' if f86 else 'absent'}, x64 stub {'found' if f64 else 'absent'}: returns {_u(val)[:100]}")
+    except _Unsupported as e:
+        ctx.undecided("R6", "AGREE", g, text, f"the function cannot be evaluated symbolically ({e})")
+        return
+    if not checked:
+        ctx.undecided("R6", "AGREE", g, text, "no path of the function is identified")
+        return
+    ctx.ob("R6", "AGREE", g, text, not bad, "returns the bytes before the x86 DOS stub when it occurs, else those before the x64 stub, else None" if not bad else "; ".join(bad[:4]))
